@@ -1,5 +1,6 @@
 (* Proofs for the transaction pipeline monitors, part 3: the simulation invariant between the
-   model's node and the monitor's bookkeeping, and its generic consequences. *)
+   model's node and the monitor's bookkeeping, its generic consequences, and the steps that do not
+   process a transaction body or a block. *)
 From V.lib Require Import Base.
 From V.model Require Import MemPool MemPoolSpec TxFlow TxFlowSpec.
 From V.proofs Require Import MemPool_Proofs TxFlow_Base TxFlow_Model TxFlow_Block.
@@ -11,7 +12,11 @@ Hypothesis Hv : valid dl all.
 
 Definition T : list (Z * list Z * bool) := flat_map mentions all.
 Definition relT (t : Z) : Prop := exists body, (t, body, true) ∈ T.
-Definition inblock (t b : Z) : Prop := exists p txs v, OBlock b p txs v ∈ all /\ t ∈ txids txs.
+Definition inblock (t b : Z) : Prop :=
+  exists o p txs v, o ∈ all /\ blk_of o = Some (b, p, txs, v) /\ t ∈ txids txs.
+
+(* the stored state is confirmed by a block of the chain the node holds *)
+Definition conf (n : node) (s : tstate) : Prop := exists b, s_proof s = Some b /\ b ∈ chain n.
 
 (* the part that only speaks about stored states and notifications *)
 Record InvS (n : node) (m : ms) : Prop := mkInvS {
@@ -19,12 +24,15 @@ Record InvS (n : node) (m : ms) : Prop := mkInvS {
   vs_D : forall t, t ∈ m_delivered m <-> is_Some (states n !! t);
   vs_FL : forall t s, states n !! t = Some s -> flags s;
   vs_UNS : forall t, t ∈ m_unsafe m <-> exists s, states n !! t = Some s /\ s_unsafe s = true;
-  vs_SAFE3 : forall t s, states n !! t = Some s -> s_safe s = true -> s_proof s = None -> t ∈ m_safe m;
   vs_SAFED : forall t, t ∈ m_safe m -> is_Some (states n !! t);
   vs_REL : forall t, is_Some (states n !! t) -> relT t;
-  vs_PRF : forall t s b, states n !! t = Some s -> s_proof s = Some b -> b ∈ chain n /\ inblock t b }.
+  vs_OUTS : forall t s body rel, states n !! t = Some s -> (t, body, rel) ∈ T -> outs_ok body (s_outs s) = true;
+  vs_PRF : forall t, lookup_proof m t = oproof (states n !! t);
+  vs_PRF0 : forall t s b, states n !! t = Some s -> s_proof s = Some b -> 0 <= b;
+  vs_PRFB : forall t s b, states n !! t = Some s -> s_proof s = Some b -> inblock t b }.
 
-Record InvU (n : node) (m : ms) : Prop := mkInvU {
+(* Rs: the transactions that were sent again while confirmed in the chain (see TxFlowSpec.op_ok) *)
+Record InvU (Rs : list Z) (n : node) (m : ms) : Prop := mkInvU {
   vu_clock : m_clock m = now n;
   vu_sync : m_insync m = insync n;
   vu_chain : m_chain m = chain n;
@@ -33,24 +41,28 @@ Record InvU (n : node) (m : ms) : Prop := mkInvU {
   vu_poolT : forall t b, (t, b) ∈ m_pool m -> exists rel, (t, b, rel) ∈ T;
   vu_poolS : forall t b, (t, b) ∈ m_pool m -> relT t -> is_Some (states n !! t);
   vu_L : forall t, t ∈ m_live m <-> is_Some (unconf n !! t);
-  vu_US : forall t, is_Some (unconf n !! t) -> exists s, states n !! t = Some s /\ s_proof s = None;
+  vu_US : forall t, is_Some (unconf n !! t) -> exists s, states n !! t = Some s /\ ~ conf n s;
   vu_SU : forall t s, states n !! t = Some s -> s_proof s = None -> is_Some (unconf n !! t);
   vu_SEEN : forall t u, unconf n !! t = Some u -> lookup_seen m t = Some (u_time u);
   vu_SAFE1 : forall t u, t ∈ m_safe m -> unconf n !! t = Some u -> u_safe u = true;
   vu_SAFE2 : forall t u, unconf n !! t = Some u -> u_safe u = true -> t ∈ m_safe m \/ t ∈ m_unsafe m;
+  vu_SAFE3 : forall t u s, unconf n !! t = Some u -> states n !! t = Some s -> s_safe s = true -> t ∈ m_safe m;
   vu_VCH : forall t u, unconf n !! t = Some u -> u_trusted u = true -> t ∈ m_vouched m;
   vu_VCH2 : forall t, is_trusted (mp n) t = true -> t ∈ m_vouched m;
   vu_VNOW : forall t, t ∈ m_vnow m ->
       is_trusted (mp n) t = true \/ (exists u, unconf n !! t = Some u /\ u_trusted u = true) \/
-      (exists s, states n !! t = Some s /\ (s_unsafe s = true \/ is_Some (s_proof s))) \/ ~ relT t;
+      (exists s, states n !! t = Some s /\ (s_unsafe s = true \/ conf n s)) \/ ~ relT t;
   vu_VPER : forall t, t ∈ m_vpersist m ->
       (exists u, unconf n !! t = Some u /\ u_trusted u = true) \/
-      (exists s, states n !! t = Some s /\ is_Some (s_proof s));
+      (exists s, states n !! t = Some s /\ conf n s);
   vu_UUNS : forall t u, unconf n !! t = Some u -> u_unsafe u = true -> t ∈ m_unsafe m;
   vu_CONF : forall t, t ∈ m_conflicted m -> relT t ->
-      exists s, states n !! t = Some s /\ (s_unsafe s = true \/ is_Some (s_proof s)) }.
+      exists s, states n !! t = Some s /\ (s_unsafe s = true \/ t ∈ Rs);
+  vu_RS : forall t, t ∈ Rs -> exists s, states n !! t = Some s /\ conf n s;
+  vu_HELD : forall t b s, (t, b) ∈ m_pool m -> states n !! t = Some s -> conf n s -> t ∈ Rs;
+  vu_LIMBO : forall t b s, (t, b) ∈ m_pool m -> states n !! t = Some s -> ~ conf n s -> is_Some (unconf n !! t) }.
 
-Definition Inv (n : node) (m : ms) : Prop := InvS n m /\ InvU n m.
+Definition Inv (Rs : list Z) (n : node) (m : ms) : Prop := InvS n m /\ InvU Rs n m.
 
 (* facts about the table of mentions *)
 Lemma T_body t b1 r1 b2 r2 : (t, b1, r1) ∈ T -> (t, b2, r2) ∈ T -> b1 = b2 /\ r1 = r2.
@@ -65,109 +77,174 @@ Proof.
   split; apply elem_of_list_In; assumption.
 Qed.
 
-(* decoded "unconfirmed" = no proof, for proofs that are non-negative block ids *)
-Lemma ust_None s : s_proof s = None -> ust s = true.
-Proof. unfold ust. intros ->. reflexivity. Qed.
-
-Lemma ust_Some s b : s_proof s = Some b -> 0 <= b -> ust s = false.
-Proof. unfold ust. intros -> H. simpl. apply Z.eqb_neq. lia. Qed.
-
-Lemma InvS_ust n m t s : InvS n m -> states n !! t = Some s -> (ust s = true <-> s_proof s = None).
+(* confirmed, as the monitor computes it *)
+Lemma conf_dec n s : conf n s \/ ~ conf n s.
 Proof.
-  intros HS Hs. split; [|apply ust_None].
-  destruct (s_proof s) as [b|] eqn:Ep; [|reflexivity].
-  destruct (vs_PRF _ _ HS t s b Hs Ep) as [Hc _]. apply (vs_chain0 _ _ HS) in Hc.
-  rewrite (ust_Some s b Ep Hc). discriminate.
+  unfold conf. destruct (s_proof s) as [b|].
+  - destruct (decide (b ∈ chain n)) as [H|H]; [left; eauto|]. right. intros (b' & Hb & Hc). congruence.
+  - right. intros (b' & Hb & _). discriminate.
 Qed.
+
+Lemma cnf_conf n s : (forall b, b ∈ chain n -> 0 <= b) -> cnf (chain n) s = true <-> conf n s.
+Proof.
+  intros H0. unfold cnf, conf. rewrite mem_elem. destruct (s_proof s) as [b|]; cbn [pz].
+  - split; [eauto|]. intros (b' & Hb & Hc). congruence.
+  - split.
+    + intros H. apply H0 in H. lia.
+    + intros (b' & Hb & _). discriminate.
+Qed.
+
+Lemma cnf_false n s : (forall b, b ∈ chain n -> 0 <= b) -> cnf (chain n) s = false <-> ~ conf n s.
+Proof.
+  intros H0. rewrite <- (cnf_conf n s H0). destruct (cnf (chain n) s); split; congruence.
+Qed.
+
+Lemma conf_same_proof n s s' : s_proof s' = s_proof s -> conf n s -> conf n s'.
+Proof. unfold conf. intros ->. auto. Qed.
 
 (* the monitor state before the notifications of a step are noted: only fields that are not
    driven by notifications may differ from the state before the step *)
 Definition same_ev (m m1 : ms) : Prop :=
   m_delivered m1 = m_delivered m /\ m_live m1 = m_live m /\ m_seen m1 = m_seen m /\
-  m_unsafe m1 = m_unsafe m /\ m_safe m1 = m_safe m.
+  m_unsafe m1 = m_unsafe m /\ m_safe m1 = m_safe m /\ m_proofs m1 = m_proofs m.
 
 Lemma same_ev_refl m : same_ev m m.
 Proof. repeat split. Qed.
+
+Lemma lookup_proof_ext m m' x : m_proofs m' = m_proofs m -> lookup_proof m' x = lookup_proof m x.
+Proof. unfold lookup_proof. intros ->. reflexivity. Qed.
+
+Lemma lookup_seen_ext m m' x : m_seen m' = m_seen m -> lookup_seen m' x = lookup_seen m x.
+Proof. unfold lookup_seen. intros ->. reflexivity. Qed.
+
+(* ---------------------------------------------------------------------------------------- *)
+(* consequences of the extension relation *)
+Lemma Ext_some PB S0 S evs t : Ext PB S0 S evs -> is_Some (S0 !! t) -> is_Some (S !! t).
+Proof.
+  intros HE (so & Hso). destruct (decide (t ∈ tkeys evs)) as [Hk|Hk].
+  - apply tkeys_elem in Hk. destruct Hk as (s & Hk). rewrite (x_in _ _ _ _ HE t s Hk). eauto.
+  - rewrite (x_out _ _ _ _ HE t Hk), Hso. eauto.
+Qed.
+
+Lemma Ext_back PB S0 S evs t s : Ext PB S0 S evs -> S !! t = Some s ->
+  tev_in evs t s \/ (t ∉ tkeys evs /\ S0 !! t = Some s).
+Proof.
+  intros HE Hs. destruct (decide (t ∈ tkeys evs)) as [Hk|Hk].
+  - left. apply tkeys_elem in Hk. destruct Hk as (s' & Hk).
+    rewrite (x_in _ _ _ _ HE t s' Hk) in Hs. inversion Hs. subst. exact Hk.
+  - right. split; [exact Hk|]. rewrite <- (x_out _ _ _ _ HE t Hk). exact Hs.
+Qed.
+
+(* the proof of the state after the step: the proof before, or a block of this step *)
+Lemma Ext_proof PB S0 S evs t s : Ext PB S0 S evs -> S !! t = Some s ->
+  s_proof s = oproof (S0 !! t) \/ exists b, s_proof s = Some b /\ PB b.
+Proof.
+  intros HE Hs. destruct (Ext_back _ _ _ _ t s HE Hs) as [[H|H]|[_ H]].
+  - apply (x_new _ _ _ _ HE t s H).
+  - destruct (x_upd _ _ _ _ HE t s H) as (so & Hso & _ & _ & _ & Hp & _). rewrite Hso. exact Hp.
+  - left. rewrite H. reflexivity.
+Qed.
+
+(* a stored state stays stored; unsafe is sticky as far as the step's new-transaction notifications keep it *)
+Lemma Ext_sticky PB S0 S evs t so : Ext PB S0 S evs -> S0 !! t = Some so ->
+  (forall s, ETx t s ∈ evs -> s_unsafe so = true -> s_unsafe s = true) ->
+  exists s, S !! t = Some s /\ (s_unsafe so = true -> s_unsafe s = true) /\
+            (s_proof s = s_proof so \/ exists b, s_proof s = Some b /\ PB b) /\
+            (t ∉ tkeys evs -> s = so).
+Proof.
+  intros HE Hso Hmono. destruct (Ext_some _ _ _ _ t HE (ex_intro _ so Hso)) as (s & Hs).
+  exists s. split; [exact Hs|].
+  pose proof (Ext_proof _ _ _ _ t s HE Hs) as Hp. rewrite Hso in Hp. cbn [oproof] in Hp.
+  split; [|split; [exact Hp|]].
+  - destruct (Ext_back _ _ _ _ t s HE Hs) as [[H|H]|[_ H]].
+    + apply Hmono, H.
+    + destruct (x_upd _ _ _ _ HE t s H) as (so' & Hso' & H1 & _).
+      assert (so' = so) by congruence. subst so'. exact H1.
+    + assert (s = so) by congruence. subst s. auto.
+  - intros Hk. rewrite (x_out _ _ _ _ HE t Hk) in Hs. congruence.
+Qed.
 
 (* ---------------------------------------------------------------------------------------- *)
 (* generic preservation of the states part *)
 Lemma gen_states (PB : Z -> Prop) n m n' m1 evs :
   InvS n m -> same_ev m m1 ->
   Ext PB (states n) (states n') evs ->
-  (forall b, b ∈ chain n -> b ∈ chain n') ->
   (forall b, b ∈ chain n' -> 0 <= b) ->
-  (forall t s, ETx t s ∈ evs -> relT t) ->
-  (forall t s b, tev_in evs t s -> s_proof s = Some b -> PB b -> b ∈ chain n' /\ inblock t b) ->
+  (forall b, PB b -> 0 <= b) ->
+  (forall t s, ETx t s ∈ evs ->
+     relT t /\ flags s /\ (forall body rel, (t, body, rel) ∈ T -> outs_ok body (s_outs s) = true) /\
+     (forall so, states n !! t = Some so -> s_unsafe so = true -> s_unsafe s = true)) ->
+  (forall t s b, tev_in evs t s -> s_proof s = Some b -> PB b -> inblock t b) ->
   InvS n' (notes m1 evs).
 Proof.
-  intros HS (E1 & E2 & E3 & E4 & E5) HE Hch Hch0 Hrel Hprf.
+  intros HS (E1 & E2 & E3 & E4 & E5 & E6) HE Hch0 HPB0 Hnew Hprf.
   assert (Hdec : forall t, t ∈ tkeys evs \/ t ∉ tkeys evs).
   { intros t. destruct (decide (t ∈ tkeys evs)); auto. }
-  assert (Hnew : forall t s, states n' !! t = Some s ->
-            (tev_in evs t s) \/ (t ∉ tkeys evs /\ states n !! t = Some s)).
-  { intros t s Hs. destruct (Hdec t) as [Hk|Hk].
-    - left. apply tkeys_elem in Hk. destruct Hk as (s' & Hk).
-      rewrite (x_in _ _ _ _ HE t s' Hk) in Hs. inversion Hs. subst. exact Hk.
-    - right. split; [exact Hk|]. rewrite <- (x_out _ _ _ _ HE t Hk). exact Hs. }
   assert (Hfl : forall t s, tev_in evs t s -> flags s).
   { intros t s [H|H].
-    - apply (x_new _ _ _ _ HE) in H. tauto.
+    - apply (Hnew t s H).
     - apply (x_upd _ _ _ _ HE) in H. destruct H as (so & Hso & Ht).
       apply Ht. eapply vs_FL; eauto. }
+  assert (Hmono : forall t so, states n !! t = Some so -> forall s, ETx t s ∈ evs -> s_unsafe so = true -> s_unsafe s = true).
+  { intros t so Hso s H. destruct (Hnew t s H) as (_ & _ & _ & Hm). apply (Hm so Hso). }
   split.
   - exact Hch0.
   - intros t. rewrite notes_delivered, E1, (vs_D _ _ HS). split.
-    + intros [(s & Hs)|(s & Hs)].
-      * destruct (Hdec t) as [Hk|Hk].
-        -- apply tkeys_elem in Hk. destruct Hk as (s' & Hk). rewrite (x_in _ _ _ _ HE t s' Hk). eauto.
-        -- rewrite (x_out _ _ _ _ HE t Hk), Hs. eauto.
+    + intros [Hs|(s & Hs)].
+      * eapply Ext_some; eauto.
       * rewrite (x_in _ _ _ _ HE t s); [eauto|]. left. exact Hs.
-    + intros (s & Hs). destruct (Hnew t s Hs) as [[H|H]|[_ H]].
+    + intros (s & Hs). destruct (Ext_back _ _ _ _ t s HE Hs) as [[H|H]|[_ H]].
       * right. eauto.
       * left. apply (x_upd _ _ _ _ HE) in H. destruct H as (so & Hso & _). eauto.
       * left. eauto.
-  - intros t s Hs. destruct (Hnew t s Hs) as [H|[_ H]]; [eapply Hfl; eauto|eapply vs_FL; eauto].
+  - intros t s Hs. destruct (Ext_back _ _ _ _ t s HE Hs) as [H|[_ H]]; [eapply Hfl; eauto|eapply vs_FL; eauto].
   - intros t. rewrite notes_unsafe, E4, (vs_UNS _ _ HS). split.
     + intros [(so & Hso & Hu)|(s & Hs & Hu)].
-      * destruct (Hdec t) as [Hk|Hk].
-        -- apply tkeys_elem in Hk. destruct Hk as (s' & Hk). exists s'.
-           split; [apply (x_in _ _ _ _ HE t s' Hk)|].
-           destruct Hk as [Hk|Hk].
-           ++ apply (x_new _ _ _ _ HE) in Hk. destruct Hk as [Hk _]. congruence.
-           ++ apply (x_upd _ _ _ _ HE) in Hk. destruct Hk as (so' & Hso' & Ht).
-              assert (so' = so) by congruence. subst so'. destruct Ht as (Ht1 & _). apply Ht1, Hu.
-        -- exists so. split; [|exact Hu]. rewrite (x_out _ _ _ _ HE t Hk). exact Hso.
+      * destruct (Ext_sticky _ _ _ _ t so HE Hso (Hmono t so Hso)) as (s & Hs & K1 & _). eauto.
       * exists s. split; [apply (x_in _ _ _ _ HE t s Hs)|].
         apply orb_true_iff in Hu. destruct Hu as [Hu|Hu]; [exact Hu|].
         apply (Hfl t s Hs), Hu.
-    + intros (s & Hs & Hu). destruct (Hnew t s Hs) as [H|[_ H]].
+    + intros (s & Hs & Hu). destruct (Ext_back _ _ _ _ t s HE Hs) as [H|[_ H]].
       * right. exists s. split; [exact H|]. rewrite Hu. reflexivity.
       * left. eauto.
-  - intros t s Hs Hsafe Hp. rewrite notes_safe, E5. destruct (Hnew t s Hs) as [H|[_ H]].
-    + right. exists s. split; [exact H|]. rewrite Hsafe, (ust_None s Hp). reflexivity.
-    + left. eapply vs_SAFE3; eauto.
-  - intros t. rewrite notes_safe, E5. intros [H|(s & Hs & _)].
-    + apply (vs_SAFED _ _ HS) in H. destruct H as (so & Hso).
-      destruct (Hdec t) as [Hk|Hk].
-      * apply tkeys_elem in Hk. destruct Hk as (s' & Hk). rewrite (x_in _ _ _ _ HE t s' Hk). eauto.
-      * rewrite (x_out _ _ _ _ HE t Hk), Hso. eauto.
+  - intros t Hin. apply (notes_safe m1 evs t (x_nodup _ _ _ _ HE)) in Hin. rewrite E5 in Hin.
+    destruct Hin as [[H _]|(s & Hs & _)].
+    + eapply Ext_some; [exact HE|]. apply (vs_SAFED _ _ HS), H.
     + rewrite (x_in _ _ _ _ HE t s Hs). eauto.
-  - intros t (s & Hs). destruct (Hnew t s Hs) as [[H|H]|[_ H]].
-    + eapply Hrel; eauto.
+  - intros t (s & Hs). destruct (Ext_back _ _ _ _ t s HE Hs) as [[H|H]|[_ H]].
+    + apply (Hnew t s H).
     + apply (x_upd _ _ _ _ HE) in H. destruct H as (so & Hso & _). apply (vs_REL _ _ HS). eauto.
     + apply (vs_REL _ _ HS). eauto.
-  - intros t s b Hs Hp. destruct (Hnew t s Hs) as [H|[_ H]].
-    + assert (Hpo : (exists so, states n !! t = Some so /\ s_proof so = Some b) \/ PB b).
-      { destruct H as [H'|H'].
-        - apply (x_new _ _ _ _ HE) in H'. destruct H' as (_ & _ & [Hq|(b' & Hq & Hb')]); [congruence|].
-          right. congruence.
-        - apply (x_upd _ _ _ _ HE) in H'. destruct H' as (so & Hso & _ & _ & _ & [Hq|(b' & Hq & Hb')]).
-          + left. exists so. split; [exact Hso|congruence].
-          + right. congruence. }
-      destruct Hpo as [(so & Hso & Hq)|HPB].
-      * destruct (vs_PRF _ _ HS t so b Hso Hq) as [Hc Hi]. split; [apply Hch, Hc|exact Hi].
-      * eapply Hprf; eauto.
-    + destruct (vs_PRF _ _ HS t s b H Hp) as [Hc Hi]. split; [apply Hch, Hc|exact Hi].
+  - intros t s body rel Hs HT. destruct (Ext_back _ _ _ _ t s HE Hs) as [[H|H]|[_ H]].
+    + eapply (Hnew t s H); eauto.
+    + apply (x_upd _ _ _ _ HE) in H. destruct H as (so & Hso & _ & _ & _ & _ & Ho). rewrite Ho.
+      eapply vs_OUTS; eauto.
+    + eapply vs_OUTS; eauto.
+  - intros t.
+    assert (Hpos : forall s, states n' !! t = Some s -> forall b, s_proof s = Some b -> 0 <= b).
+    { intros s Hs b Hb. destruct (Ext_proof _ _ _ _ t s HE Hs) as [Hp|(b' & Hp & HP)].
+      - rewrite Hb in Hp. destruct (states n !! t) as [so|] eqn:Eso; [|discriminate].
+        cbn in Hp. eapply vs_PRF0; eauto.
+      - apply HPB0. congruence. }
+    destruct (Hdec t) as [Hk|Hk].
+    + apply tkeys_elem in Hk. destruct Hk as (s & Hk).
+      rewrite (notes_proof_in m1 evs t s (x_nodup _ _ _ _ HE) Hk), (x_in _ _ _ _ HE t s Hk). cbn [oproof].
+      destruct (s_proof s) as [b|] eqn:Ep; cbn [pz].
+      * assert (0 <= b) by (apply (Hpos s (x_in _ _ _ _ HE t s Hk) b Ep)).
+        replace (b =? -1) with false by (symmetry; apply Z.eqb_neq; lia). reflexivity.
+      * cbn. rewrite (lookup_proof_ext m m1) by exact E6. rewrite (vs_PRF _ _ HS).
+        destruct (Ext_proof _ _ _ _ t s HE (x_in _ _ _ _ HE t s Hk)) as [Hp|(b' & Hp & _)]; congruence.
+    + rewrite (notes_proof_out m1 evs t Hk), (lookup_proof_ext m m1) by exact E6.
+      rewrite (x_out _ _ _ _ HE t Hk). apply (vs_PRF _ _ HS).
+  - intros t s b Hs Hb. destruct (Ext_proof _ _ _ _ t s HE Hs) as [Hp|(b' & Hp & HP)].
+    + rewrite Hb in Hp. destruct (states n !! t) as [so|] eqn:Eso; [|discriminate].
+      cbn in Hp. eapply vs_PRF0; eauto.
+    + apply HPB0. congruence.
+  - intros t s b Hs Hb. destruct (Ext_back _ _ _ _ t s HE Hs) as [H|[_ H]]; [|eapply vs_PRFB; eauto].
+    destruct (Ext_proof _ _ _ _ t s HE Hs) as [Hp|(b' & Hp & HP)].
+    + rewrite Hb in Hp. destruct (states n !! t) as [so|] eqn:Eso; [|discriminate].
+      cbn in Hp. eapply vs_PRFB; eauto.
+    + assert (b' = b) by congruence. subst b'. eapply Hprf; eauto.
 Qed.
 
 (* ---------------------------------------------------------------------------------------- *)
@@ -179,13 +256,15 @@ Lemma gen_checks (PB : Z -> Prop) n m S' o evs :
   InvS n m ->
   Ext PB (states n) S' evs ->
   (forall t s, ETx t s ∈ evs ->
-     exists body, op_tx_info o t = Some (body, true) /\ outs_ok body (s_outs s) = true /\
+     exists body, op_tx_info o t = Some (body, true) /\ outs_ok body (s_outs s) = true /\ flags s /\
+       (forall so, states n !! t = Some so ->
+          limbo m t = true /\ (s_unsafe so = true -> s_unsafe s = true)) /\
        match o with
        | OTx _ _ _ SLocal => True
-       | OTx _ _ _ _ => (s_safe s && ust s) = false
+       | OTx _ _ _ _ => (s_safe s && ev_unconf m o (ev_of (ETx t s))) = false
        | _ => True
        end) ->
-  (forall t s, EUpdate t s ∈ evs -> s_safe s = true -> ust s = true ->
+  (forall t s, EUpdate t s ∈ evs -> s_safe s = true -> ev_unconf m o (ev_of (EUpdate t s)) = true ->
      t ∉ m_safe m /\
      ((mem t (m_local m) || op_local_for o t) = true \/
       (t ∈ m_vouched m /\ t ∉ m_conflicted m /\
@@ -196,31 +275,30 @@ Proof.
   apply elem_of_list_fmap in He'. destruct He' as (e & -> & He).
   destruct e as [t s|t s|h b].
   - (* new transaction *)
-    destruct (x_new _ _ _ _ HE t s He) as (Hnone & [F1 F2] & _).
-    destruct (Hnew t s He) as (body & Hinfo & Houts & Hloc).
-    unfold check_event. cbn [ev_of e_kind e_safe e_unsafe e_cancel e_t e_outs e_proof].
+    destruct (Hnew t s He) as (body & Hinfo & Houts & [F1 F2] & Hold & Hloc).
+    unfold check_event. set (uc := ev_unconf m o (ev_of (ETx t s))) in *.
+    cbn [ev_of e_kind e_safe e_unsafe e_cancel e_t e_outs e_proof].
     cbn [Z.eqb Pos.eqb orb]. rewrite F1.
-    destruct (s_cancel s) eqn:Ec; [rewrite (F2 eq_refl)|]; cbn [negb andb].
-    + assert (Hnu : mem t (m_unsafe m) = false).
-      { apply mem_false. intros Hin. apply (vs_UNS _ _ HS) in Hin. destruct Hin as (so & Hso & _). congruence. }
-      rewrite Hnu, andb_false_r, Hinfo. cbn [negb].
-      assert (Hnd : mem t (m_delivered m) = false).
-      { apply mem_false. intros Hin. apply (vs_D _ _ HS) in Hin. destruct Hin as (so & Hso). congruence. }
-      rewrite Hnd, Houts. cbn [negb].
-      destruct o as [t' body' rel' src| | | | | | | |]; try reflexivity.
-      destruct src; try reflexivity; fold (ust s); rewrite Hloc; reflexivity.
-    + assert (Hnu : mem t (m_unsafe m) = false).
-      { apply mem_false. intros Hin. apply (vs_UNS _ _ HS) in Hin. destruct Hin as (so & Hso & _). congruence. }
-      rewrite Hnu, andb_false_r, Hinfo. cbn [negb].
-      assert (Hnd : mem t (m_delivered m) = false).
-      { apply mem_false. intros Hin. apply (vs_D _ _ HS) in Hin. destruct Hin as (so & Hso). congruence. }
-      rewrite Hnd, Houts. cbn [negb].
-      destruct o as [t' body' rel' src| | | | | | | |]; try reflexivity.
-      destruct src; try reflexivity; fold (ust s); rewrite Hloc; reflexivity.
+    assert (Hc2 : (s_cancel s && negb (s_unsafe s)) = false).
+    { destruct (s_cancel s); [rewrite (F2 eq_refl)|]; reflexivity. }
+    rewrite Hc2.
+    assert (H103 : (s_safe s && mem t (m_unsafe m)) = false).
+    { destruct (s_safe s) eqn:Es; [|reflexivity]. cbn [andb]. apply mem_false. intros Hin.
+      apply (vs_UNS _ _ HS) in Hin. destruct Hin as (so & Hso & Hu).
+      destruct (Hold so Hso) as [_ Hm]. rewrite (Hm Hu) in F1. discriminate. }
+    rewrite H103, Hinfo. cbn [negb].
+    assert (H113 : (mem t (m_delivered m) && negb (limbo m t)) = false).
+    { destruct (mem t (m_delivered m)) eqn:Ed; [|reflexivity]. cbn [andb].
+      apply mem_elem, (vs_D _ _ HS) in Ed. destruct Ed as (so & Hso).
+      destruct (Hold so Hso) as [-> _]. reflexivity. }
+    rewrite H113, Houts. cbn [negb].
+    destruct o as [t' body' rel' src| | | | | | | | | |]; try reflexivity.
+    destruct src; try reflexivity; rewrite Hloc; reflexivity.
   - (* update *)
     destruct (x_upd _ _ _ _ HE t s He) as (so & Hso & Hs1 & Hs2 & Hs3 & _).
     destruct (Hs3 (vs_FL _ _ HS t so Hso)) as [F1 F2].
-    unfold check_event. cbn [ev_of e_kind e_safe e_unsafe e_cancel e_t e_outs e_proof].
+    unfold check_event. set (uc := ev_unconf m o (ev_of (EUpdate t s))) in *.
+    cbn [ev_of e_kind e_safe e_unsafe e_cancel e_t e_outs e_proof].
     cbn [Z.eqb Pos.eqb orb]. rewrite F1.
     assert (Hc2 : (s_cancel s && negb (s_unsafe s)) = false).
     { destruct (s_cancel s); [rewrite (F2 eq_refl)|]; reflexivity. }
@@ -232,8 +310,8 @@ Proof.
     rewrite H103.
     assert (Hd : mem t (m_delivered m) = true).
     { apply mem_elem, (vs_D _ _ HS). eauto. }
-    rewrite Hd. cbn [negb]. fold (ust s).
-    destruct (s_safe s) eqn:Es; [|reflexivity]. destruct (ust s) eqn:Eu; [|reflexivity]. cbn [andb].
+    rewrite Hd. cbn [negb].
+    destruct (s_safe s) eqn:Es; [|reflexivity]. destruct uc eqn:Eu; [|reflexivity]. cbn [andb].
     destruct (Hupd t s He Es Eu) as [Hns Hw].
     apply mem_false in Hns. rewrite Hns.
     fold (op_local_for o t).
@@ -247,14 +325,13 @@ Qed.
 (* ---------------------------------------------------------------------------------------- *)
 (* steps without notifications *)
 Lemma InvS_frame n m n' m' :
-  InvS n m -> states n' = states n -> chain n' = chain n -> same_ev m m' -> InvS n' m'.
+  InvS n m -> states n' = states n -> (forall b, b ∈ chain n' -> 0 <= b) -> same_ev m m' -> InvS n' m'.
 Proof.
   intros HS Hst Hch Hev.
   change m' with (notes m' []).
   apply (gen_states (fun _ => False) n m n' m' []); try assumption.
   - rewrite Hst. apply Ext_nil.
-  - rewrite Hch. auto.
-  - rewrite Hch. apply (vs_chain0 _ _ HS).
+  - intros b [].
   - intros t s H. apply elem_of_nil in H. destruct H.
   - intros t s b H. destruct (tev_in_nil _ _ H).
 Qed.
@@ -286,47 +363,53 @@ Lemma step_simple_monitor m o c rest :
         (0, if trusted && m_insync m
             then MS (m_pool m) (m_delivered m) (m_live m) (m_seen m) (add_z t (m_vouched m)) (m_conflicted m)
                     (m_unsafe m) (m_safe m) (m_local m) (m_clock m) (m_insync m) (m_chain m)
-                    (add_z t (m_vnow m)) (m_vpersist m)
+                    (add_z t (m_vnow m)) (m_vpersist m) (m_proofs m)
             else m)
     | OAdvance dt => (0, MS (m_pool m) (m_delivered m) (m_live m) (m_seen m) (m_vouched m) (m_conflicted m)
                            (m_unsafe m) (m_safe m) (m_local m) (m_clock m + dt) (m_insync m) (m_chain m)
-                           (m_vnow m) (m_vpersist m))
-    | OSetInSync b => (0, MS (m_pool m) (m_delivered m) (m_live m) (m_seen m) (m_vouched m) (m_conflicted m)
-                            (m_unsafe m) (m_safe m) (m_local m) (m_clock m) b (m_chain m) (m_vnow m) (m_vpersist m))
+                           (m_vnow m) (m_vpersist m) (m_proofs m))
+    | OSetInSync b => (0, set_insync m b)
     | ORestart =>
         (0, MS [] (m_delivered m) (m_live m) (m_seen m) (m_vouched m) (m_conflicted m)
-               (m_unsafe m) (m_safe m) (m_local m) (m_clock m) false (m_chain m) (m_vpersist m) (m_vpersist m))
+               (m_unsafe m) (m_safe m) (m_local m) (m_clock m) false (m_chain m) (m_vpersist m) (m_vpersist m)
+               (m_proofs m))
     | OGetTx t => ((if mem t (m_delivered m) && negb (c =? OK) then 171 else 0), m)
     | _ => (0, m)
     end in (code, m1).
 Proof.
-  intros Hc. unfold monitor_step. rewrite Hc. cbn [hd first_bad fold_left Z.eqb negb].
-  destruct o; try discriminate; reflexivity.
+  intros Hc. unfold monitor_step. rewrite Hc. cbn [hd].
+  destruct o; try discriminate; cbn [pre_step first_bad fold_left Z.eqb negb]; reflexivity.
 Qed.
 
-Lemma step_advance n m dt : Inv n m -> 0 <= dt ->
+Lemma step_advance Rs n m dt : Inv Rs n m -> 0 <= dt ->
   exists m', monitor_step dl m (OAdvance dt) [OK] = (0, m') /\
-    Inv (Node (mp n) (unconf n) (states n) (blocktxs n) (chain n) (insync n) (now n + dt) (delay n)) m'.
+    Inv Rs (Node (mp n) (unconf n) (states n) (blocktxs n) (chain n) (insync n) (now n + dt) (delay n)) m'.
 Proof.
   intros [HS HU] Hdt. rewrite step_simple_monitor by reflexivity. eexists. split; [reflexivity|].
   split.
-  - eapply InvS_frame; [exact HS|reflexivity|reflexivity|]. repeat split.
+  - eapply InvS_frame; [exact HS|reflexivity|apply (vs_chain0 _ _ HS)|]. repeat split.
   - destruct HU. split; cbn; try assumption. congruence.
 Qed.
 
-Lemma step_setsync n m b : Inv n m ->
-  exists m', monitor_step dl m (OSetInSync b) [OK] = (0, m') /\
-    Inv (Node (mp n) (unconf n) (states n) (blocktxs n) (chain n) b (now n) (delay n)) m'.
+Lemma Inv_setsync Rs n m b : Inv Rs n m ->
+  Inv Rs (Node (mp n) (unconf n) (states n) (blocktxs n) (chain n) b (now n) (delay n)) (set_insync m b).
 Proof.
-  intros [HS HU]. rewrite step_simple_monitor by reflexivity. eexists. split; [reflexivity|].
-  split.
-  - eapply InvS_frame; [exact HS|reflexivity|reflexivity|]. repeat split.
+  intros [HS HU]. split.
+  - eapply InvS_frame; [exact HS|reflexivity|apply (vs_chain0 _ _ HS)|]. repeat split.
   - destruct HU. split; cbn; try assumption. reflexivity.
 Qed.
 
-Lemma step_gettx n m t : Inv n m ->
+Lemma step_setsync Rs n m b : Inv Rs n m ->
+  exists m', monitor_step dl m (OSetInSync b) [OK] = (0, m') /\
+    Inv Rs (Node (mp n) (unconf n) (states n) (blocktxs n) (chain n) b (now n) (delay n)) m'.
+Proof.
+  intros HI. rewrite step_simple_monitor by reflexivity. eexists. split; [reflexivity|].
+  apply Inv_setsync, HI.
+Qed.
+
+Lemma step_gettx Rs n m t : Inv Rs n m ->
   exists m', monitor_step dl m (OGetTx t) (match states n !! t with Some _ => [OK; t] | None => [ERR] end)
-             = (0, m') /\ Inv n m'.
+             = (0, m') /\ Inv Rs n m'.
 Proof.
   intros [HS HU]. destruct (states n !! t) as [s|] eqn:Es.
   - rewrite step_simple_monitor by reflexivity. cbn. rewrite andb_false_r.
@@ -338,19 +421,26 @@ Proof.
       intros Hin. apply (vs_D _ _ HS) in Hin. rewrite Es in Hin. destruct Hin. discriminate.
 Qed.
 
-Lemma step_unconf n m ob : Inv n m ->
-  exists m', monitor_step dl m OUnconf ob = (0, m') /\ Inv n m'.
+Lemma step_unconf Rs n m ob : Inv Rs n m ->
+  exists m', monitor_step dl m OUnconf ob = (0, m') /\ Inv Rs n m'.
 Proof.
-  intros HI. unfold monitor_step. cbn [carries_events]. cbn [first_bad fold_left Z.eqb negb].
+  intros HI. unfold monitor_step. cbn [carries_events pre_step]. cbn [first_bad fold_left Z.eqb negb].
   exists m. split; [reflexivity|exact HI].
 Qed.
 
-Lemma step_restart n m : Inv n m ->
-  exists m', monitor_step dl m ORestart [OK] = (0, m') /\ Inv (restart n) m'.
+Lemma step_blocktxs Rs n m h ob : Inv Rs n m ->
+  exists m', monitor_step dl m (OBlockTxs h) ob = (0, m') /\ Inv Rs n m'.
+Proof.
+  intros HI. unfold monitor_step. cbn [carries_events pre_step]. cbn [first_bad fold_left Z.eqb negb].
+  exists m. split; [reflexivity|exact HI].
+Qed.
+
+Lemma step_restart Rs n m : Inv Rs n m ->
+  exists m', monitor_step dl m ORestart [OK] = (0, m') /\ Inv Rs (restart n) m'.
 Proof.
   intros [HS HU]. rewrite step_simple_monitor by reflexivity. eexists. split; [reflexivity|].
   split.
-  - eapply InvS_frame; [exact HS|reflexivity|reflexivity|]. repeat split.
+  - eapply InvS_frame; [exact HS|reflexivity|apply (vs_chain0 _ _ HS)|]. repeat split.
   - destruct HU. split; cbn; try assumption; try reflexivity.
     + apply R_init.
     + intros t b H. apply elem_of_nil in H. destruct H.
@@ -358,24 +448,26 @@ Proof.
     + intros t H. unfold is_trusted in H. cbn in H. rewrite lookup_empty in H. discriminate.
     + intros t Hin. destruct (vu_VPER0 t Hin) as [H|(s & Hs & Hp)]; [auto|].
       right. right. left. exists s. auto.
+    + intros t b s H. apply elem_of_nil in H. destruct H.
+    + intros t b s H. apply elem_of_nil in H. destruct H.
 Qed.
 
-Lemma step_inv n m t trusted : Inv n m ->
+Lemma step_inv Rs n m t trusted : Inv Rs n m ->
   let r := (if insync n || negb trusted then
               let '(m1, (have, req)) := add_request (mp n) (now n) t trusted in
               (set_mp n m1, [OK; b2z req; b2z (negb have && negb req)])
             else (n, [OK; 0; 0])) in
-  exists m', monitor_step dl m (OInv t trusted) (snd r) = (0, m') /\ Inv (fst r) m'.
+  exists m', monitor_step dl m (OInv t trusted) (snd r) = (0, m') /\ Inv Rs (fst r) m'.
 Proof.
   intros [HS HU]. cbv zeta.
   assert (Hmon : forall a b c, monitor_step dl m (OInv t trusted) [a; b; c] =
      (0, if trusted && m_insync m
             then MS (m_pool m) (m_delivered m) (m_live m) (m_seen m) (add_z t (m_vouched m)) (m_conflicted m)
                     (m_unsafe m) (m_safe m) (m_local m) (m_clock m) (m_insync m) (m_chain m)
-                    (add_z t (m_vnow m)) (m_vpersist m)
+                    (add_z t (m_vnow m)) (m_vpersist m) (m_proofs m)
             else m)).
   { intros a b c. rewrite step_simple_monitor by reflexivity. reflexivity. }
-  pose proof (vu_sync _ _ HU) as Hsync.
+  pose proof (vu_sync _ _ _ HU) as Hsync.
   destruct (insync n || negb trusted) eqn:Eg.
   - pose proof (add_request_view (mp n) (now n) t trusted) as Hview. cbv zeta in Hview.
     pose proof (add_request_trusted (mp n) (now n) t trusted) as Htr.
@@ -383,11 +475,11 @@ Proof.
     destruct Hview as [Hv1 Hv2].
     rewrite Hmon. eexists. split; [reflexivity|].
     rewrite Hsync.
-    assert (HR' : R m1 (m_pool m)) by (apply (R_same_view (mp n)); [apply (vu_R _ _ HU)|exact Hv1|exact Hv2]).
+    assert (HR' : R m1 (m_pool m)) by (apply (R_same_view (mp n)); [apply (vu_R _ _ _ HU)|exact Hv1|exact Hv2]).
     destruct (trusted && insync n) eqn:Et.
     + apply andb_true_iff in Et. destruct Et as [-> Esy].
       split.
-      * eapply InvS_frame; [exact HS|reflexivity|reflexivity|]. repeat split.
+      * eapply InvS_frame; [exact HS|reflexivity|apply (vs_chain0 _ _ HS)|]. repeat split.
       * destruct HU. split; cbn; try assumption; try reflexivity.
         -- intros t' u H1 H2. apply add_z_elem. left. eapply vu_VCH0; eauto.
         -- intros t' H. rewrite Htr in H. apply add_z_elem. destruct (decide (t' = t)); auto.
@@ -401,7 +493,7 @@ Proof.
       assert (Hmono : forall t', is_trusted (mp n) t' = true -> is_trusted m1 t' = true).
       { intros t' H. rewrite Htr. destruct (decide (t' = t)) as [->|Hne]; [rewrite H; reflexivity|exact H]. }
       split.
-      * eapply InvS_frame; [exact HS|reflexivity|reflexivity|]. repeat split.
+      * eapply InvS_frame; [exact HS|reflexivity|apply (vs_chain0 _ _ HS)|]. repeat split.
       * destruct HU. split; cbn; try assumption.
         -- intros t' H. apply vu_VCH3, Hsame, H.
         -- intros t' H. destruct (vu_VNOW0 t' H) as [H'|H']; [left; apply Hmono, H'|right; exact H'].
@@ -411,47 +503,11 @@ Qed.
 
 (* ---------------------------------------------------------------------------------------- *)
 (* helpers for steps with notifications *)
-Lemma Ext_some PB S0 S evs t : Ext PB S0 S evs -> is_Some (S0 !! t) -> is_Some (S !! t).
-Proof.
-  intros HE (so & Hso). destruct (decide (t ∈ tkeys evs)) as [Hk|Hk].
-  - apply tkeys_elem in Hk. destruct Hk as (s & Hk). rewrite (x_in _ _ _ _ HE t s Hk). eauto.
-  - rewrite (x_out _ _ _ _ HE t Hk), Hso. eauto.
-Qed.
-
-Lemma Ext_sticky PB S0 S evs t so : Ext PB S0 S evs -> S0 !! t = Some so ->
-  exists s, S !! t = Some s /\ (s_unsafe so = true -> s_unsafe s = true) /\
-            (is_Some (s_proof so) -> is_Some (s_proof s)) /\
-            (t ∉ tkeys evs -> s = so).
-Proof.
-  intros HE Hso. destruct (decide (t ∈ tkeys evs)) as [Hk|Hk].
-  - apply tkeys_elem in Hk. destruct Hk as (s & Hk). exists s.
-    split; [apply (x_in _ _ _ _ HE t s Hk)|].
-    destruct Hk as [Hk|Hk].
-    + apply (x_new _ _ _ _ HE) in Hk. destruct Hk as [Hk _]. congruence.
-    + assert (Hk' := Hk). apply (x_upd _ _ _ _ HE) in Hk. destruct Hk as (so' & Hso' & H1 & _ & _ & H4).
-      assert (so' = so) by congruence. subst so'. split; [exact H1|]. split.
-      * intros (b & Hb). destruct H4 as [H4|(b' & H4 & _)]; rewrite H4; eauto.
-      * intros Hn. exfalso. apply Hn, tkeys_elem. exists s. right. exact Hk'.
-  - exists so. split; [rewrite (x_out _ _ _ _ HE t Hk); exact Hso|]. auto.
-Qed.
-
-Lemma Ext_back PB S0 S evs t s : Ext PB S0 S evs -> S !! t = Some s ->
-  tev_in evs t s \/ (t ∉ tkeys evs /\ S0 !! t = Some s).
-Proof.
-  intros HE Hs. destruct (decide (t ∈ tkeys evs)) as [Hk|Hk].
-  - left. apply tkeys_elem in Hk. destruct Hk as (s' & Hk).
-    rewrite (x_in _ _ _ _ HE t s' Hk) in Hs. inversion Hs. subst. exact Hk.
-  - right. split; [exact Hk|]. rewrite <- (x_out _ _ _ _ HE t Hk). exact Hs.
-Qed.
-
 Lemma notes_unsafe_mono m evs t : t ∈ m_unsafe m -> t ∈ m_unsafe (notes m evs).
 Proof. intros H. apply notes_unsafe. auto. Qed.
 
-Lemma notes_safe_mono m evs t : t ∈ m_safe m -> t ∈ m_safe (notes m evs).
-Proof. intros H. apply notes_safe. auto. Qed.
-
 Lemma monitor_step_events m o c evs :
-  carries_events o = true ->
+  carries_events o = true -> (forall b p txs v, o <> OReorg b p txs v) ->
   monitor_step dl m o (c :: enc_events evs) =
   let es := map ev_of evs in
   let bad := first_bad dl m o es in
@@ -467,21 +523,60 @@ Lemma monitor_step_events m o c evs :
     end in
   (code, fold_left note_event es m1).
 Proof.
-  intros Hc. unfold monitor_step. rewrite Hc, decode_enc. cbv zeta.
-  destruct (negb (first_bad dl m o (map ev_of evs) =? 0)); [reflexivity|].
-  destruct o; try discriminate; reflexivity.
+  intros Hc Ho. unfold monitor_step. rewrite Hc.
+  destruct o; try discriminate; try (exfalso; eapply Ho; reflexivity);
+    cbn [obs_events pre_step]; rewrite decode_enc; reflexivity.
+Qed.
+
+Lemma monitor_step_reorg m b prev txs valid c i h tp evs :
+  monitor_step dl m (OReorg b prev txs valid) (c :: i :: h :: tp :: enc_events evs) =
+  let '(m0, proc) := header_step m b prev in
+  let es := map ev_of evs in
+  let bad := first_bad dl m0 (OReorg b prev txs valid) es in
+  if negb (bad =? 0) then (bad, m) else
+  let '(code, m1) :=
+    if proc then
+      (if c =? OK then block_step m0 b txs es else ((if negb (zlen es =? 0) then 154 else 0), m0))
+    else ((if c =? OK then 155 else if negb (zlen es =? 0) then 154 else 0), m0) in
+  (code, fold_left note_event es m1).
+Proof.
+  unfold monitor_step. cbn [carries_events obs_events pre_step]. rewrite decode_enc. reflexivity.
+Qed.
+
+(* at most one notification per transaction *)
+Lemma Ext_no_both PB S0 S evs x s s' : Ext PB S0 S evs -> ETx x s ∈ evs -> EUpdate x s' ∈ evs -> False.
+Proof.
+  intros HE H Hup. pose proof (x_nodup _ _ _ _ HE) as Hk.
+  apply elem_of_list_split in H. destruct H as (l1 & l2 & ->).
+  rewrite tkeys_app in Hk. cbn in Hk. apply NoDup_app in Hk. destruct Hk as (_ & Hd & Hk2).
+  apply NoDup_cons in Hk2. destruct Hk2 as [Hk2 _].
+  apply elem_of_app in Hup. destruct Hup as [Hup|Hup].
+  - apply (Hd x); [apply tkeys_elem; exists s'; right; exact Hup|left].
+  - apply elem_of_cons in Hup. destruct Hup as [Hup|Hup]; [discriminate|].
+    apply Hk2, tkeys_elem. exists s'. right. exact Hup.
+Qed.
+
+Lemma confirmed_iff n t : confirmed n t = true <-> exists s, states n !! t = Some s /\ conf n s.
+Proof.
+  unfold confirmed, conf, in_chain. destruct (states n !! t) as [s|].
+  - destruct (s_proof s) as [b|] eqn:Ep.
+    + rewrite mem_elem. split.
+      * intros H. exists s. split; [reflexivity|]. exists b. auto.
+      * intros (s' & Hs' & b' & Hb' & Hc). inversion Hs'. subst s'. congruence.
+    + split; [discriminate|]. intros (s' & Hs' & b' & Hb' & _). inversion Hs'. subst s'. congruence.
+  - split; [discriminate|]. intros (s' & Hs' & _). discriminate.
 Qed.
 
 (* ---------------------------------------------------------------------------------------- *)
 (* the delay check *)
-Lemma step_delay n m : Inv n m ->
+Lemma step_delay Rs n m : Inv Rs n m ->
   exists m', monitor_step dl m ODelayCheck (OK :: enc_events (snd (delay_check n))) = (0, m') /\
-             Inv (fst (delay_check n)) m'.
+             Inv Rs (fst (delay_check n)) m'.
 Proof.
-  intros [HS HU]. rewrite monitor_step_events by reflexivity. cbv zeta.
+  intros [HS HU]. rewrite monitor_step_events by (try reflexivity; discriminate). cbv zeta.
   unfold delay_check. destruct (insync n) eqn:Esync; cbn [negb].
   2:{ cbn [snd fst map]. cbn [first_bad fold_left Z.eqb negb].
-      unfold delay_step. rewrite (vu_sync _ _ HU), Esync. cbn.
+      unfold delay_step. rewrite (vu_sync _ _ _ HU), Esync. cbn.
       exists m. split; [reflexivity|]. split; assumption. }
   pose proof (delay_loop_spec (fun _ => False) (states n) (now n - delay n) (sorted_keys (unconf n))
                 (sorted_keys_NoDup _) n []) as Hspec.
@@ -492,6 +587,7 @@ Proof.
   simpl in Hacc. subst evs0. cbn [fst snd]. clear Hspec.
   destruct Hmisc as (Hch & Hsy & Hnow & Hdl).
   set (cutoff := now n - delay n) in *.
+  pose proof (vs_chain0 _ _ HS) as Hch0.
   (* facts about a fired key *)
   assert (Hfired : forall x u, unconf n !! x = Some u -> dcond n cutoff x u = true ->
             u_safe u = false /\ u_unsafe u = false /\ dl <= m_clock m - u_time u /\
@@ -499,41 +595,43 @@ Proof.
   { intros x u Hu Hd. unfold dcond in Hd. rewrite !andb_true_iff in Hd.
     destruct Hd as [[[H1 H2] H3] H4]. apply negb_true_iff in H1, H2. apply Z.ltb_lt in H3.
     split; [exact H1|]. split; [exact H2|]. split.
-    - subst cutoff. rewrite (vu_clock _ _ HU), <- (vu_delay _ _ HU). lia.
+    - subst cutoff. rewrite (vu_clock _ _ _ HU), <- (vu_delay _ _ _ HU). lia.
     - apply orb_true_iff in H4. destruct H4 as [H4|H4]; [eapply vu_VCH; eauto|eapply vu_VCH2; eauto]. }
   assert (Hkeys : forall x u, unconf n !! x = Some u -> x ∈ sorted_keys (unconf n)).
   { intros x u Hu. apply sorted_keys_elem. eauto. }
   assert (Hnotx : forall t s, ETx t s ∈ evs -> False).
-  { intros t s H. destruct (x_new _ _ _ _ HE t s H) as [Hnone _].
-    destruct (Hev1 t s (or_introl H)) as (_ & _ & u & so & _ & _ & Hso & _). congruence. }
-  assert (Hevp : forall t s, tev_in evs t s -> s_proof s = None /\ s_safe s = true /\ s_unsafe s = false /\
+  { intros t s H. destruct (Hev1 t s (or_introl H)) as (_ & Hup & _). eapply Ext_no_both; eauto. }
+  assert (Hevp : forall t s, tev_in evs t s -> ~ conf n s /\ s_safe s = true /\ s_unsafe s = false /\
                    exists u so, unconf n !! t = Some u /\ dcond n cutoff t u = true /\
                                 states n !! t = Some so /\ s = mk_safe_s so).
   { intros t s H. destruct (Hev1 t s H) as (_ & _ & u & so & Hu & Hd & Hso & Hns & ->).
-    destruct (vu_US _ _ HU t) as (so' & Hso' & Hp); [eauto|].
+    destruct (vu_US _ _ _ HU t) as (so' & Hso' & Hp); [eauto|].
     assert (so' = so) by congruence. subst so'. apply orb_false_iff in Hns.
     split; [exact Hp|]. split; [reflexivity|]. split; [apply Hns|]. eauto 10. }
+  assert (Hcnf : forall t s, tev_in evs t s -> cnf (m_chain m) s = false).
+  { intros t s H. rewrite (vu_chain _ _ _ HU). apply (cnf_false n s Hch0). apply (Hevp t s H). }
   (* the checks on the notifications *)
   assert (Hbad : first_bad dl m ODelayCheck (map ev_of evs) = 0).
   { apply (gen_checks (fun _ => False) n m (states n')); [exact HS|exact HE| |].
     - intros t s H. destruct (Hnotx t s H).
-    - intros t s H Hsafe Hust. destruct (Hevp t s (or_intror H)) as (Hp & _ & _ & u & so & Hu & Hd & Hso & ->).
+    - intros t s H Hsafe _. destruct (Hevp t s (or_intror H)) as (Hp & _ & _ & u & so & Hu & Hd & Hso & ->).
       destruct (Hfired t u Hu Hd) as (F1 & F2 & F3 & F4).
       split.
-      + intros Hin. rewrite (vu_SAFE1 _ _ HU t u Hin Hu) in F1. discriminate.
+      + intros Hin. rewrite (vu_SAFE1 _ _ _ HU t u Hin Hu) in F1. discriminate.
       + right. split; [exact F4|]. split.
-        * intros Hin. destruct (vu_CONF _ _ HU t Hin) as (s' & Hs' & Hc).
+        * intros Hin. destruct (vu_CONF _ _ _ HU t Hin) as (s' & Hs' & Hc).
           { apply (vs_REL _ _ HS). eauto. }
           assert (s' = so) by congruence. subst s'.
           destruct (Hev1 t _ (or_intror H)) as (_ & _ & u' & so' & _ & _ & Hso' & Hns & Heq).
           assert (so' = so) by congruence. subst so'. apply orb_false_iff in Hns.
-          destruct Hc as [Hc|(b & Hc)]; [destruct Hns; congruence|].
-          simpl in Hp. congruence.
+          destruct Hc as [Hc|Hc]; [destruct Hns; congruence|].
+          destruct (vu_RS _ _ _ HU t Hc) as (s2 & Hs2 & Hcf). assert (s2 = so) by congruence. subst s2.
+          apply Hp. exact Hcf.
         * exists (u_time u). split; [eapply vu_SEEN; eauto|exact F3]. }
   rewrite Hbad. cbn [Z.eqb negb].
   (* liveness: everything whose conditions hold is reported *)
   assert (Hstep : delay_step dl m (map ev_of evs) = 0).
-  { unfold delay_step. rewrite (vu_sync _ _ HU), Esync. cbn [negb].
+  { unfold delay_step. rewrite (vu_sync _ _ _ HU), Esync. cbn [negb].
     match goal with |- (if ?c then _ else _) = _ => assert (Hc : c = false); [|rewrite Hc; reflexivity] end.
     apply existsb_false_iff. intros t Ht.
     destruct (mem t (m_vnow m)) eqn:C1; [|reflexivity].
@@ -541,11 +639,11 @@ Proof.
     destruct (mem t (m_unsafe m)) eqn:C3; [reflexivity|].
     destruct (mem t (m_safe m)) eqn:C4; [reflexivity|].
     apply mem_elem in C1. apply mem_false in C2, C3, C4. cbn [negb andb].
-    apply (vu_L _ _ HU) in Ht. destruct Ht as (u & Hu).
-    rewrite (vu_SEEN _ _ HU t u Hu).
+    apply (vu_L _ _ _ HU) in Ht. destruct Ht as (u & Hu).
+    rewrite (vu_SEEN _ _ _ HU t u Hu).
     destruct (m_clock m - u_time u >? dl) eqn:C5; [|reflexivity]. cbn [andb].
     apply negb_false_iff.
-    destruct (vu_US _ _ HU t) as (so & Hso & Hp); [eauto|].
+    destruct (vu_US _ _ _ HU t) as (so & Hso & Hp); [eauto|].
     assert (Hnu : s_unsafe so = false).
     { destruct (s_unsafe so) eqn:E; [|reflexivity]. destruct C3. apply (vs_UNS _ _ HS). eauto. }
     assert (Hnc : s_cancel so = false).
@@ -554,22 +652,20 @@ Proof.
     assert (Hd : dcond n cutoff t u = true).
     { unfold dcond. rewrite !andb_true_iff. split; [split; [split|]|].
       - apply negb_true_iff. destruct (u_safe u) eqn:E; [|reflexivity].
-        destruct (vu_SAFE2 _ _ HU t u Hu E); contradiction.
+        destruct (vu_SAFE2 _ _ _ HU t u Hu E); contradiction.
       - apply negb_true_iff. destruct (u_unsafe u) eqn:E; [|reflexivity].
         destruct C3. eapply vu_UUNS; eauto.
-      - apply Z.ltb_lt. subst cutoff. rewrite <- (vu_clock _ _ HU), (vu_delay _ _ HU). lia.
-      - destruct (vu_VNOW _ _ HU t C1) as [H|[(u' & Hu' & H)|[(s & Hs & H)|H]]].
+      - apply Z.ltb_lt. subst cutoff. rewrite <- (vu_clock _ _ _ HU), (vu_delay _ _ _ HU). lia.
+      - destruct (vu_VNOW _ _ _ HU t C1) as [H|[(u' & Hu' & H)|[(s & Hs & H)|H]]].
         + rewrite H. apply orb_true_r.
         + assert (u' = u) by congruence. subst u'. rewrite H. reflexivity.
-        + assert (s = so) by congruence. subst s. destruct H as [H|(b & H)]; congruence.
+        + assert (s = so) by congruence. subst s. destruct H as [H|H]; [congruence|contradiction].
         + destruct H. apply (vs_REL _ _ HS). eauto. }
     apply has_ev_map. exists (EUpdate t (mk_safe_s so)). split.
     - apply (Hev2 t u so); [eapply Hkeys; eauto|exact Hu|exact Hd|exact Hso|rewrite Hnu, Hnc; reflexivity].
     - cbn. rewrite Z.eqb_refl. reflexivity. }
   rewrite Hstep. fold (notes m evs). eexists. split; [reflexivity|].
   destruct (notes_frame m evs) as (N1 & N2 & N3 & N4 & N5 & N6 & N7 & N8 & N9). cbv zeta in *.
-  assert (Hust : forall y s, tev_in evs y s -> ust s = true).
-  { intros y s H. apply ust_None. apply (Hevp y s H). }
   assert (Hdom : forall x, is_Some (unconf n' !! x) <-> is_Some (unconf n !! x)).
   { intros x. rewrite Hunc. unfold delay_unconf. destruct (unconf n !! x) as [u|]; [|reflexivity].
     destruct (_ && _); split; eauto. }
@@ -583,1086 +679,101 @@ Proof.
     - destruct (dcond n cutoff x u) eqn:Ed; intros [= <-]; exists u; cbn; auto 10.
     - intros [= <-]. exists u. apply bool_decide_eq_false in Eb.
       split; [reflexivity|]. repeat (split; [reflexivity|]). left. split; [reflexivity|]. intros; contradiction. }
+  (* stored states: the proof of every state is unchanged *)
+  assert (Hpsame : forall x s, states n' !! x = Some s -> exists so, states n !! x = Some so /\ s_proof s = s_proof so /\
+                     (s_unsafe so = true -> s_unsafe s = true) /\ (x ∉ tkeys evs -> s = so)).
+  { intros x s Hs. destruct (Ext_back _ _ _ _ x s HE Hs) as [[H|H]|[Hk H]].
+    - destruct (Hnotx x s H).
+    - destruct (x_upd _ _ _ _ HE x s H) as (so & Hso & K1 & _ & _ & [Hp|(b & _ & [])] & _).
+      exists so. split; [exact Hso|]. split; [exact Hp|]. split; [exact K1|].
+      intros Hk. destruct Hk. apply tkeys_elem. exists s. right. exact H.
+    - exists s. auto. }
+  assert (Hfwd : forall x so, states n !! x = Some so -> exists s, states n' !! x = Some s /\ s_proof s = s_proof so /\
+                     (s_unsafe so = true -> s_unsafe s = true)).
+  { intros x so Hso. destruct (Ext_some _ _ _ _ x HE (ex_intro _ so Hso)) as (s & Hs).
+    destruct (Hpsame x s Hs) as (so' & Hso' & K1 & K2 & _). assert (so' = so) by congruence. subst so'.
+    exists s. auto. }
+  assert (Hconf' : forall s, conf n' s <-> conf n s).
+  { intros s. unfold conf. rewrite Hch. reflexivity. }
   split.
   - apply (gen_states (fun _ => False) n m n' m evs); try assumption.
     + apply same_ev_refl.
-    + rewrite Hch. auto.
-    + rewrite Hch. apply (vs_chain0 _ _ HS).
+    + rewrite Hch. exact Hch0.
+    + intros b [].
     + intros t s H. destruct (Hnotx t s H).
     + intros t s b _ _ [].
   - split.
-    + rewrite N5, Hnow. apply (vu_clock _ _ HU).
-    + rewrite N6, Hsy. apply (vu_sync _ _ HU).
-    + rewrite N7, Hch. apply (vu_chain _ _ HU).
-    + rewrite Hdl. apply (vu_delay _ _ HU).
-    + rewrite N1, Hmp. apply (vu_R _ _ HU).
-    + rewrite N1. apply (vu_poolT _ _ HU).
+    + rewrite N5, Hnow. apply (vu_clock _ _ _ HU).
+    + rewrite N6, Hsy. apply (vu_sync _ _ _ HU).
+    + rewrite N7, Hch. apply (vu_chain _ _ _ HU).
+    + rewrite Hdl. apply (vu_delay _ _ _ HU).
+    + rewrite N1, Hmp. apply (vu_R _ _ _ HU).
+    + rewrite N1. apply (vu_poolT _ _ _ HU).
     + rewrite N1. intros t b Hin Hrel. eapply Ext_some; [exact HE|]. eapply vu_poolS; eauto.
-    + intros t. rewrite (notes_live_add m evs t Hust), Hdom, (vu_L _ _ HU). split; [|auto].
+    + intros t. rewrite (notes_live_add m evs t Hcnf), Hdom, (vu_L _ _ _ HU). split; [|auto].
       intros [H|(s & H)]; [exact H|]. destruct (Hnotx t s H).
-    + intros t Ht. apply Hdom in Ht. destruct (vu_US _ _ HU t Ht) as (so & Hso & Hp).
-      destruct (Ext_sticky _ _ _ _ t so HE Hso) as (s & Hs & _ & _ & Hsame).
-      exists s. split; [exact Hs|].
-      destruct (Ext_back _ _ _ _ t s HE Hs) as [H|[_ H]]; [apply (Hevp t s H)|congruence].
-    + intros t s Hs Hp. apply Hdom. destruct (Ext_back _ _ _ _ t s HE Hs) as [H|[_ H]].
-      * destruct (Hevp t s H) as (_ & _ & _ & u & _ & Hu & _). eauto.
-      * eapply vu_SU; eauto.
+    + intros t Ht. apply Hdom in Ht. destruct (vu_US _ _ _ HU t Ht) as (so & Hso & Hp).
+      destruct (Hfwd t so Hso) as (s & Hs & Hps & _). exists s. split; [exact Hs|].
+      rewrite Hconf'. intros Hc. apply Hp. eapply conf_same_proof; [|exact Hc]. congruence.
+    + intros t s Hs Hp. apply Hdom. destruct (Hpsame t s Hs) as (so & Hso & Hps & _).
+      eapply vu_SU; eauto. congruence.
     + intros t u' Hu'. destruct (Hun' t u' Hu') as (u & Hu & Ht & _).
       rewrite Ht. rewrite notes_seen_old; [eapply vu_SEEN; eauto|].
       intros s H. destruct (Hnotx t s H).
     + intros t u' Hin Hu'. destruct (Hun' t u' Hu') as (u & Hu & _ & _ & _ & [[-> _]|[-> _]]); [|reflexivity].
-      apply notes_safe in Hin. destruct Hin as [Hin|(s & Hs & _)]; [eapply vu_SAFE1; eauto|].
+      apply (notes_safe m evs t (x_nodup _ _ _ _ HE)) in Hin.
+      destruct Hin as [[Hin _]|(s & Hs & _)]; [eapply vu_SAFE1; eauto|].
       destruct (Hevp t s Hs) as (_ & _ & _ & u0 & so & Hu0 & Hd0 & _).
       assert (u0 = u) by congruence. subst u0.
       destruct (Hun' t u Hu') as (u1 & Hu1 & _ & _ & _ & [[_ Hc]|[Hc _]]).
       * assert (u1 = u) by congruence. subst u1. rewrite Hc in Hd0; [discriminate|eapply Hkeys; eauto].
       * rewrite Hc. reflexivity.
     + intros t u' Hu' Hsafe. destruct (Hun' t u' Hu') as (u & Hu & _ & _ & _ & [[-> _]|[-> Hd]]).
-      * destruct (vu_SAFE2 _ _ HU t u Hu Hsafe) as [H|H];
-          [left; apply notes_safe_mono, H|right; apply notes_unsafe_mono, H].
-      * destruct (vu_US _ _ HU t) as (so & Hso & Hp); [eauto|].
+      * destruct (vu_SAFE2 _ _ _ HU t u Hu Hsafe) as [H|H]; [|right; apply notes_unsafe_mono, H].
+        left. apply (notes_safe m evs t (x_nodup _ _ _ _ HE)). left. split; [exact H|].
+        intros s Hs. destruct (Hnotx t s Hs).
+      * destruct (vu_US _ _ _ HU t) as (so & Hso & Hp); [eauto|].
         destruct (s_unsafe so || s_cancel so) eqn:Eus.
         -- right. apply notes_unsafe_mono, (vs_UNS _ _ HS). exists so. split; [exact Hso|].
            apply orb_true_iff in Eus. destruct Eus as [H|H]; [exact H|].
            apply (vs_FL _ _ HS t so Hso), H.
-        -- left. apply notes_safe. right. exists (mk_safe_s so). split.
+        -- left. apply (notes_safe m evs t (x_nodup _ _ _ _ HE)). right. exists (mk_safe_s so). split.
            ++ right. eapply Hev2; eauto.
-           ++ cbn. apply ust_None. exact Hp.
+           ++ rewrite (Hcnf t (mk_safe_s so)); [reflexivity|]. right. eapply Hev2; eauto.
+    + intros t u' s Hu' Hs Hsafe. destruct (Hun' t u' Hu') as (u & Hu & _).
+      apply (notes_safe m evs t (x_nodup _ _ _ _ HE)).
+      destruct (Ext_back _ _ _ _ t s HE Hs) as [H|[Hk H]].
+      * right. exists s. split; [exact H|]. rewrite Hsafe, (Hcnf t s H). reflexivity.
+      * left. split; [eapply vu_SAFE3; eauto|]. intros s' Hs'. destruct (Hnotx t s' Hs').
     + rewrite N2. intros t u' Hu' Htr. destruct (Hun' t u' Hu') as (u & Hu & _ & Ht & _).
       rewrite Ht in Htr. eapply vu_VCH; eauto.
-    + rewrite N2, Hmp. apply (vu_VCH2 _ _ HU).
+    + rewrite N2, Hmp. apply (vu_VCH2 _ _ _ HU).
     + rewrite N8, Hmp. intros t Hin.
-      destruct (vu_VNOW _ _ HU t Hin) as [H|[(u & Hu & H)|[(s & Hs & H)|H]]]; [auto| | |auto].
+      destruct (vu_VNOW _ _ _ HU t Hin) as [H|[(u & Hu & H)|[(s & Hs & H)|H]]]; [auto| | |auto].
       * right. left. assert (Hs : is_Some (unconf n' !! t)) by (apply Hdom; eauto).
         destruct Hs as (u' & Hu'). destruct (Hun' t u' Hu') as (u0 & Hu0 & _ & Ht & _).
         exists u'. split; [exact Hu'|]. congruence.
-      * right. right. left. destruct (Ext_sticky _ _ _ _ t s HE Hs) as (s' & Hs' & K1 & K2 & _).
-        exists s'. split; [exact Hs'|]. destruct H; auto.
-    + rewrite N9. intros t Hin. destruct (vu_VPER _ _ HU t Hin) as [(u & Hu & H)|(s & Hs & H)].
+      * right. right. left. destruct (Hfwd t s Hs) as (s' & Hs' & K1 & K2).
+        exists s'. split; [exact Hs'|]. destruct H as [H|H]; [auto|].
+        right. rewrite Hconf'. eapply conf_same_proof; eauto.
+    + rewrite N9. intros t Hin. destruct (vu_VPER _ _ _ HU t Hin) as [(u & Hu & H)|(s & Hs & H)].
       * left. assert (Hs : is_Some (unconf n' !! t)) by (apply Hdom; eauto).
         destruct Hs as (u' & Hu'). destruct (Hun' t u' Hu') as (u0 & Hu0 & _ & Ht & _).
         exists u'. split; [exact Hu'|]. congruence.
-      * right. destruct (Ext_sticky _ _ _ _ t s HE Hs) as (s' & Hs' & K1 & K2 & _). eauto.
+      * right. destruct (Hfwd t s Hs) as (s' & Hs' & K1 & K2). exists s'. split; [exact Hs'|].
+        rewrite Hconf'. eapply conf_same_proof; eauto.
     + intros t u' Hu' Hun. destruct (Hun' t u' Hu') as (u & Hu & _ & _ & Ht & _).
       rewrite Ht in Hun. apply notes_unsafe_mono. eapply vu_UUNS; eauto.
-    + rewrite N3. intros t Hin Hrel. destruct (vu_CONF _ _ HU t Hin Hrel) as (s & Hs & H).
-      destruct (Ext_sticky _ _ _ _ t s HE Hs) as (s' & Hs' & K1 & K2 & _).
+    + rewrite N3. intros t Hin Hrel. destruct (vu_CONF _ _ _ HU t Hin Hrel) as (s & Hs & H).
+      destruct (Hfwd t s Hs) as (s' & Hs' & K1 & K2).
       exists s'. split; [exact Hs'|]. destruct H; auto.
-Qed.
-
-(* ---------------------------------------------------------------------------------------- *)
-(* an unconfirmed transaction is processed: what the model does *)
-Lemma add_tx_facts s now t body tr :
-  let r := add_transaction s now t body tr in
-  (snd (snd r) = true -> snd (fst (snd r)) = tr) /\
-  forall t', is_trusted (fst r) t' = if decide (t' = t) then is_trusted s t || tr else is_trusted s t'.
-Proof.
-  cbv zeta. unfold add_transaction, is_trusted.
-  destruct (txs s !! t) as [m0|] eqn:Em.
-  - assert (Hm1 : mtrusted (if tr && negb (mtrusted m0) then MTx (mtime m0) (outpoints m0) true else m0)
-                  = mtrusted m0 || tr).
-    { destruct (mtrusted m0) eqn:E; destruct tr; cbn; rewrite ?E; reflexivity. }
-    destruct (negb (zlen (outpoints m0) =? 0)) eqn:Eo.
-    + cbn [fst snd txs]. split; [discriminate|]. intros t'.
-      destruct (decide (t' = t)) as [->|Hne];
-        [rewrite lookup_insert; exact Hm1 | rewrite lookup_insert_ne by congruence; reflexivity].
-    + destruct (add_inputs (inputs s) [] t body) as [ins c]. cbn [fst snd txs].
-      split; [reflexivity|]. intros t'.
-      destruct (decide (t' = t)) as [->|Hne];
-        [rewrite lookup_insert; exact Hm1 | rewrite lookup_insert_ne by congruence; reflexivity].
-  - destruct (add_inputs (inputs s) [] t body) as [ins c]. cbn [fst snd txs].
-    split; [reflexivity|]. intros t'.
-    destruct (decide (t' = t)) as [->|Hne];
-      [rewrite lookup_insert; reflexivity | rewrite lookup_insert_ne by congruence; reflexivity].
-Qed.
-
-Definition noF : Z -> Prop := fun _ => False.
-
-(* the outcome for the arriving transaction itself *)
-Definition tx_caseA (n n' : node) (evs : list event) (t : Z) (rel : bool) : Prop :=
-  unconf n !! t = None /\ unconf n' !! t = None /\ t ∉ tkeys evs /\
-  (rel = false \/ exists s b, states n !! t = Some s /\ s_proof s = Some b).
-
-Definition tx_caseB (n n' : node) (evs : list event) (t : Z) (rel tr sf cn : bool) : Prop :=
-  exists u u' so,
-    unconf n !! t = Some u /\ unconf n' !! t = Some u' /\ states n !! t = Some so /\
-    s_proof so = None /\ rel = true /\
-    u_time u' = u_time u /\ u_trusted u' = u_trusted u || tr /\ u_safe u' = u_safe u || sf /\
-    u_unsafe u' = u_unsafe u || cn /\
-    (cn = true -> EUpdate t (mk_unsafe_s so) ∈ evs) /\
-    (forall s, tev_in evs t s ->
-       (cn = true /\ s = mk_unsafe_s so) \/
-       (cn = false /\ sf = true /\ u_safe u = false /\
-        (s_safe so || s_unsafe so || s_cancel so) = false /\ s = mk_safe_s so)) /\
-    (cn = false -> sf = true -> u_safe u = false ->
-     (s_safe so || s_unsafe so || s_cancel so) = false -> EUpdate t (mk_safe_s so) ∈ evs) /\
-    (forall s, ETx t s ∉ evs).
-
-Definition tx_caseC (n n' : node) (evs : list event) (t : Z) (body : list Z) (rel tr sf cn : bool) : Prop :=
-  unconf n !! t = None /\ states n !! t = None /\ rel = true /\
-  unconf n' !! t = Some (UTx (now n) false sf tr) /\
-  exists s1, ETx t s1 ∈ evs /\ s_proof s1 = None /\ outs_ok body (s_outs s1) = true /\
-             s_safe s1 = sf && negb cn /\ s_unsafe s1 = cn.
-
-Lemma pu_spec n m t body rel tr sf :
-  Inv n m -> (t, body, rel) ∈ T -> held (m_pool m) t = false ->
-  let p := m_pool m in
-  let cfs := conflicts_of p t body in
-  let cn := negb (zlen cfs =? 0) in
-  exists n' evs,
-    process_unconfirmed n t body rel tr sf = (n', evs) /\
-    R (mp n') (if zlen body =? 0 then p else p ++ [(t, body)]) /\
-    (forall t', is_trusted (mp n') t' = if decide (t' = t) then is_trusted (mp n) t || tr
-                                        else is_trusted (mp n) t') /\
-    same_misc n n' /\
-    Ext noF (states n) (states n') evs /\
-    (forall x, x <> t -> unconf n' !! x = if bool_decide (x ∈ cfs) then mk_unsafe_u <$> unconf n !! x
-                                          else unconf n !! x) /\
-    (tx_caseA n n' evs t rel \/ tx_caseB n n' evs t rel tr sf cn \/ tx_caseC n n' evs t body rel tr sf cn) /\
-    (forall x s, tev_in evs x s -> x <> t ->
-       x ∈ cfs /\ is_Some (unconf n !! x) /\ EUpdate x s ∈ evs /\ s_unsafe s = true /\ s_safe s = false) /\
-    (forall c, c ∈ cfs -> is_Some (unconf n !! c) -> exists s, EUpdate c s ∈ evs /\ s_unsafe s = true) /\
-    (forall x s, ETx x s ∈ evs -> x = t).
-Proof.
-  intros [HS HU] HT Hheld p cfs cn.
-  pose proof (R_add (mp n) p (now n) t body tr (vu_R _ _ HU)) as Hadd. cbv zeta in Hadd.
-  pose proof (add_tx_facts (mp n) (now n) t body tr) as Hfacts. cbv zeta in Hfacts.
-  unfold process_unconfirmed.
-  destruct (add_transaction (mp n) (now n) t body tr) as [m1 [[cfs0 tr1] added]].
-  cbn [fst snd] in Hadd, Hfacts. destruct Hadd as [HR1 Hobs]. destruct Hfacts as [Htr1 Htrust].
-  change (held p t = false) in Hheld.
-  unfold ref_step in HR1, Hobs. rewrite Hheld in HR1, Hobs.
-  cbn [fst snd] in HR1, Hobs. inversion Hobs as [[Hadded Hcfs]].
-  assert (added = true) by (destruct added; [reflexivity|discriminate]). subst added.
-  fold cfs in Hcfs. subst cfs0. specialize (Htr1 eq_refl). subst tr1. clear Hobs Hadded.
-  cbn [negb]. rewrite orb_diag.
-  assert (Hndc : NoDup cfs) by (apply add_returns_conflicts, (R_nodup _ _ (vu_R _ _ HU))).
-  assert (Htc : t ∉ cfs).
-  { intros Hin. apply conflicts_of_elem in Hin. destruct Hin as [Hne _]. congruence. }
-  change (conflicts_of p t body) with cfs.
-  pose proof (mark_conflicts_spec noF (states n) cfs Hndc (set_mp n m1) []) as Hmark.
-  destruct (mark_conflicts (set_mp n m1) cfs []) as [n2 evs1].
-  destruct (Hmark n2 evs1 eq_refl) as (Hmp2 & Hmisc2 & Hunc2 & HE2 & evs1' & Hacc & Hev1 & Hev2).
-  { intros c _. apply not_elem_of_nil. }
-  { apply Ext_nil. }
-  simpl in Hacc. subst evs1'. clear Hmark. cbn [mp set_mp unconf states] in *.
-  assert (Hu2t : unconf n2 !! t = unconf n !! t).
-  { rewrite Hunc2. rewrite bool_decide_eq_false_2 by exact Htc. reflexivity. }
-  assert (Htk1 : t ∉ tkeys evs1).
-  { intros Hk. apply tkeys_elem in Hk. destruct Hk as (s & Hk). destruct (Hev1 t s Hk) as (H1 & _). contradiction. }
-  assert (Hs2t : states n2 !! t = states n !! t) by (apply (x_out _ _ _ _ HE2 t Htk1)).
-  assert (Hrelt : is_Some (unconf n !! t) -> rel = true).
-  { intros Hu. destruct (vu_US _ _ HU t Hu) as (s & Hs & _).
-    apply (relT_rel t body rel); [|exact HT]. apply (vs_REL _ _ HS). eauto. }
-  assert (HnoETx1 : forall x s, ETx x s ∈ evs1 -> False).
-  { intros x s H. destruct (Hev1 x s (or_introl H)) as (_ & Hu & Hup & _).
-    destruct (x_new _ _ _ _ HE2 x s H) as [Hnone _].
-    destruct (vu_US _ _ HU x Hu) as (so & Hso & _). congruence. }
-  (* common parts of the conclusion, for a final node n' that agrees with n2 except at key t *)
-  assert (Fin : forall n' evs,
-    mp n' = mp n2 -> same_misc n2 n' -> Ext noF (states n) (states n') evs ->
-    (forall x, x <> t -> unconf n' !! x = unconf n2 !! x) ->
-    (tx_caseA n n' evs t rel \/ tx_caseB n n' evs t rel tr sf cn \/ tx_caseC n n' evs t body rel tr sf cn) ->
-    (exists evt, evs = evs1 ++ evt /\ (forall x s, tev_in evt x s -> x = t)) ->
-    R (mp n') (if zlen body =? 0 then p else p ++ [(t, body)]) /\
-    (forall t', is_trusted (mp n') t' = if decide (t' = t) then is_trusted (mp n) t || tr
-                                        else is_trusted (mp n) t') /\
-    same_misc n n' /\
-    Ext noF (states n) (states n') evs /\
-    (forall x, x <> t -> unconf n' !! x = if bool_decide (x ∈ cfs) then mk_unsafe_u <$> unconf n !! x
-                                          else unconf n !! x) /\
-    (tx_caseA n n' evs t rel \/ tx_caseB n n' evs t rel tr sf cn \/ tx_caseC n n' evs t body rel tr sf cn) /\
-    (forall x s, tev_in evs x s -> x <> t ->
-       x ∈ cfs /\ is_Some (unconf n !! x) /\ EUpdate x s ∈ evs /\ s_unsafe s = true /\ s_safe s = false) /\
-    (forall c, c ∈ cfs -> is_Some (unconf n !! c) -> exists s, EUpdate c s ∈ evs /\ s_unsafe s = true) /\
-    (forall x s, ETx x s ∈ evs -> x = t)).
-  { intros n' evs Hmp' Hmisc' HE' Hunc' Hcase (evt & Hevs & Hevt).
-    split; [rewrite Hmp', Hmp2; exact HR1|]. split; [rewrite Hmp', Hmp2; exact Htrust|].
-    split; [eapply same_misc_trans; [|exact Hmisc']; exact Hmisc2|]. split; [exact HE'|].
-    split; [intros x Hne; rewrite (Hunc' x Hne); apply Hunc2|]. split; [exact Hcase|].
-    split; [|split].
-    - intros x s H Hne. subst evs. apply tev_in_app in H. destruct H as [H|H].
-      + destruct (Hev1 x s H) as (H1 & H2 & H3 & H4 & H5). split; [exact H1|]. split; [exact H2|].
-        split; [apply elem_of_app; left; exact H3|]. auto.
-      + destruct Hne. eapply Hevt; eauto.
-    - intros c Hc Hu. destruct (vu_US _ _ HU c Hu) as (so & Hso & _).
-      destruct (Hev2 c Hc Hu) as (s & H1 & H2); [eauto|].
-      exists s. split; [subst evs; apply elem_of_app; left; exact H1|exact H2].
-    - intros x s H. subst evs. apply elem_of_app in H. destruct H as [H|H].
-      + destruct (HnoETx1 x s H).
-      + eapply Hevt. left. exact H. }
-  destruct rel.
-  2:{ (* not relevant: never tracked *)
-    cbn [negb].
-    assert (Hnt : unconf n !! t = None).
-    { destruct (unconf n !! t) eqn:E; [|reflexivity]. discriminate (Hrelt (ex_intro _ _ eq_refl)). }
-    eexists. eexists. split; [reflexivity|].
-    apply Fin; try reflexivity.
-    - repeat split.
-    - exact HE2.
-    - intros x Hne. cbn. apply lookup_delete_ne. congruence.
-    - left. split; [exact Hnt|]. split; [cbn; apply lookup_delete|]. split; [exact Htk1|]. left. reflexivity.
-    - exists []. rewrite app_nil_r. split; [reflexivity|]. intros x s H. destruct (tev_in_nil _ _ H). }
-  cbn [negb].
-  rewrite Hu2t. destruct (unconf n !! t) as [u|] eqn:Eu.
-  - (* already tracked *)
-    destruct (vu_US _ _ HU t) as (so & Hso & Hpo); [eauto|].
-    fold cn.
-    set (u1 := UTx (u_time u) (u_unsafe u) (u_safe u || sf) (u_trusted u || tr)).
-    destruct cn eqn:Ecn.
-    + (* conflict known now: marked unsafe *)
-      cbn [states set_unconf]. rewrite Hs2t, Hso.
-      eexists. eexists. split; [reflexivity|].
-      apply Fin; try reflexivity.
-      * repeat split.
-      * cbn [states set_states set_unconf].
-        apply (Ext_upd noF _ _ evs1 t so); [exact HE2|exact Htk1|rewrite Hs2t; exact Hso|apply trans_mk_unsafe].
-      * intros x Hne. cbn. rewrite !lookup_insert_ne by congruence. reflexivity.
-      * right. left. exists u, (UTx (u_time u1) true (u_safe u1) (u_trusted u1)), so.
-        split; [exact Eu|]. split; [cbn; apply lookup_insert|]. split; [exact Hso|]. split; [exact Hpo|].
-        split; [reflexivity|]. cbn. split; [reflexivity|]. split; [reflexivity|]. split; [reflexivity|].
-        split; [rewrite orb_true_r; reflexivity|].
-        split; [intros _; apply elem_of_app; right; left|].
-        split.
-        { intros s H. left. split; [reflexivity|]. apply tev_in_app in H. destruct H as [H|H].
-          - destruct Htk1. apply tkeys_elem. eauto.
-          - apply tev_in_single in H. destruct H as [H|H]; inversion H. reflexivity. }
-        split; [discriminate|].
-        intros s H. apply elem_of_app in H. destruct H as [H|H]; [eapply HnoETx1; eauto|].
-        apply elem_of_list_singleton in H. discriminate.
-      * eexists. split; [reflexivity|]. intros x s H. apply tev_in_single in H.
-        destruct H as [H|H]; inversion H; reflexivity.
-    + destruct (sf && negb (u_safe u)) eqn:Esf.
-      * apply andb_true_iff in Esf. destruct Esf as [-> Eus]. apply negb_true_iff in Eus.
-        cbn [states set_unconf]. rewrite Hs2t, Hso.
-        destruct (s_safe so || s_unsafe so || s_cancel so) eqn:Eflags.
-        -- eexists. eexists. split; [reflexivity|].
-           apply Fin; try reflexivity.
-           ++ repeat split.
-           ++ exact HE2.
-           ++ intros x Hne. cbn. rewrite lookup_insert_ne by congruence. reflexivity.
-           ++ right. left. exists u, u1, so.
-              split; [exact Eu|]. split; [cbn; apply lookup_insert|]. split; [exact Hso|]. split; [exact Hpo|].
-              split; [reflexivity|]. cbn. split; [reflexivity|]. split; [reflexivity|]. split; [reflexivity|].
-              split; [rewrite orb_false_r; reflexivity|]. split; [discriminate|].
-              split; [intros s H; destruct Htk1; apply tkeys_elem; eauto|].
-              split; [intros _ _ _ H; congruence|].
-              intros s H. eapply HnoETx1; eauto.
-           ++ exists []. rewrite app_nil_r. split; [reflexivity|]. intros x s H. destruct (tev_in_nil _ _ H).
-        -- eexists. eexists. split; [reflexivity|].
-           assert (Hns : (s_unsafe so || s_cancel so) = false).
-           { apply orb_false_iff in Eflags. destruct Eflags as [Ef1 Ef2]. apply orb_false_iff in Ef1.
-             destruct Ef1 as [_ Ef1]. rewrite Ef1, Ef2. reflexivity. }
-           apply Fin; try reflexivity.
-           ++ repeat split.
-           ++ cbn [states set_states set_unconf].
-              apply (Ext_upd noF _ _ evs1 t so); [exact HE2|exact Htk1|rewrite Hs2t; exact Hso|].
-              apply trans_mk_safe, Hns.
-           ++ intros x Hne. cbn. rewrite lookup_insert_ne by congruence. reflexivity.
-           ++ right. left. exists u, u1, so.
-              split; [exact Eu|]. split; [cbn; apply lookup_insert|]. split; [exact Hso|]. split; [exact Hpo|].
-              split; [reflexivity|]. cbn. split; [reflexivity|]. split; [reflexivity|]. split; [reflexivity|].
-              split; [rewrite orb_false_r; reflexivity|]. split; [discriminate|].
-              split.
-              { intros s H. right. apply tev_in_app in H. destruct H as [H|H].
-                - destruct Htk1. apply tkeys_elem. eauto.
-                - apply tev_in_single in H. destruct H as [H|H]; inversion H. auto 10. }
-              split; [intros _ _ _ _; apply elem_of_app; right; left|].
-              intros s H. apply elem_of_app in H. destruct H as [H|H]; [eapply HnoETx1; eauto|].
-              apply elem_of_list_singleton in H. discriminate.
-           ++ eexists. split; [reflexivity|]. intros x s H. apply tev_in_single in H.
-              destruct H as [H|H]; inversion H; reflexivity.
-      * eexists. eexists. split; [reflexivity|].
-        apply Fin; try reflexivity.
-        -- repeat split.
-        -- exact HE2.
-        -- intros x Hne. cbn. rewrite lookup_insert_ne by congruence. reflexivity.
-        -- right. left. exists u, u1, so.
-           split; [exact Eu|]. split; [cbn; apply lookup_insert|]. split; [exact Hso|]. split; [exact Hpo|].
-           split; [reflexivity|]. cbn. split; [reflexivity|]. split; [reflexivity|]. split; [reflexivity|].
-           split; [rewrite orb_false_r; reflexivity|]. split; [discriminate|].
-           split; [intros s H; destruct Htk1; apply tkeys_elem; eauto|].
-           split.
-           { intros _ -> Hus. rewrite Hus in Esf. discriminate. }
-           intros s H. eapply HnoETx1; eauto.
-        -- exists []. rewrite app_nil_r. split; [reflexivity|]. intros x s H. destruct (tev_in_nil _ _ H).
-  - (* not tracked *)
-    cbn [states set_unconf now]. rewrite Hs2t.
-    destruct (states n !! t) as [s|] eqn:Est.
-    + (* delivered earlier and not tracked: confirmed *)
-      assert (Hconf : exists b, s_proof s = Some b /\ in_chain (set_unconf n2 (<[t:=UTx (now n2) false sf tr]> (unconf n2))) b = true).
-      { destruct (s_proof s) as [b|] eqn:Ep.
-        - exists b. split; [reflexivity|]. unfold in_chain. cbn [chain set_unconf].
-          destruct Hmisc2 as (Hch & _). cbn [chain set_mp] in Hch. rewrite Hch.
-          apply mem_elem. eapply vs_PRF; eauto.
-        - destruct (vu_SU _ _ HU t s Est Ep) as (u & Hu). congruence. }
-      destruct Hconf as (b & Hpb & Hic). rewrite Hpb, Hic.
-      eexists. eexists. split; [reflexivity|].
-      apply Fin; try reflexivity.
-      * repeat split.
-      * exact HE2.
-      * intros x Hne. cbn. rewrite lookup_delete_ne, lookup_insert_ne by congruence. reflexivity.
-      * left. split; [exact Eu|]. split; [cbn; apply lookup_delete|]. split; [exact Htk1|]. right. eauto.
-      * exists []. rewrite app_nil_r. split; [reflexivity|]. intros x s' H. destruct (tev_in_nil _ _ H).
-    + (* first seen: delivered now *)
-      cbn [s_proof]. fold cn.
-      set (nn := set_unconf n2 (<[t:=UTx (now n2) false sf tr]> (unconf n2))).
-      set (s1 := if cn then TState false true false 1 None (spent_outputs nn body)
-                 else TState (sf || sf) false false 1 None (spent_outputs nn body)).
-      assert (Hnow2 : now n2 = now n) by (destruct Hmisc2 as (_ & _ & H & _); exact H).
-      exists (set_states nn (<[t:=s1]> (states nn))), (evs1 ++ [ETx t s1]).
-      split.
-      { subst s1 nn. cbn [s_cancel s_unsafe s_outs s_proof]. destruct cn; reflexivity. }
-      apply Fin; try reflexivity.
-      * repeat split.
-      * cbn [states set_states set_unconf]. subst nn. cbn [states set_unconf].
-        apply Ext_new; [exact HE2|exact Htk1|exact Hs2t| |].
-        -- subst s1. unfold flags. destruct cn; cbn; split; try reflexivity; try discriminate.
-           rewrite andb_false_r. reflexivity.
-        -- left. subst s1. destruct cn; reflexivity.
-      * intros x Hne. subst nn. cbn. rewrite lookup_insert_ne by congruence. reflexivity.
-      * right. right. split; [exact Eu|]. split; [exact Est|]. split; [reflexivity|].
-        split; [subst nn; cbn; rewrite lookup_insert, Hnow2; reflexivity|].
-        exists s1. split; [apply elem_of_app; right; left|].
-        subst s1. destruct cn; cbn; rewrite ?outs_ok_spent, ?orb_diag, ?andb_true_r, ?andb_false_r; auto.
-      * eexists. split; [reflexivity|]. intros x s' H. apply tev_in_single in H.
-        destruct H as [H|H]; inversion H; reflexivity.
-Qed.
-
-(* ---------------------------------------------------------------------------------------- *)
-(* an unconfirmed transaction is processed: the simulation step *)
-Lemma pu_held n p t body rel tr sf : R (mp n) p -> held p t = true ->
-  process_unconfirmed n t body rel tr sf = (set_mp n (fst (add_transaction (mp n) (now n) t body tr)), []) /\
-  R (fst (add_transaction (mp n) (now n) t body tr)) p.
-Proof.
-  intros HR Hh. pose proof (R_add (mp n) p (now n) t body tr HR) as Hadd. cbv zeta in Hadd.
-  unfold process_unconfirmed.
-  destruct (add_transaction (mp n) (now n) t body tr) as [m1 [[cfs tr1] added]].
-  cbn [fst snd] in Hadd. destruct Hadd as [HR1 Hobs]. unfold ref_step in HR1, Hobs. rewrite Hh in HR1, Hobs.
-  cbn [fst snd] in HR1, Hobs.
-  destruct added; [discriminate|]. split; [reflexivity|exact HR1].
-Qed.
-
-Ltac dcase H :=
-  destruct H as [(A1 & A2 & A3 & A4)|
-                 [(u & u' & so & B1 & B2 & B3 & B4 & B5 & B6 & B7 & B8 & B9 & B10 & B11 & B12 & B13)|
-                  (C1 & C2 & C3 & C4 & s1 & C5 & C6 & C7 & C8 & C9)]].
-
-Definition src_tr (s : src) : bool := match s with SUntrusted => false | _ => true end.
-Definition src_sf (s : src) : bool := match s with SLocal => true | _ => false end.
-
-Lemma lookup_seen_ext m m' x : m_seen m' = m_seen m -> lookup_seen m' x = lookup_seen m x.
-Proof. unfold lookup_seen. intros ->. reflexivity. Qed.
-
-Lemma tx_processed n m t body rel src :
-  Inv n m -> OTx t body rel src ∈ all ->
-  (match src with STrusted => m_insync m | _ => true end) = true ->
-  let r := process_unconfirmed n t body rel (src_tr src) (src_sf src) in
-  exists m', monitor_step dl m (OTx t body rel src) (OK :: enc_events (snd r)) = (0, m') /\ Inv (fst r) m'.
-Proof.
-  intros [HS HU] Ho Hproc r. subst r.
-  rewrite monitor_step_events by reflexivity. cbv zeta.
-  assert (HT : (t, body, rel) ∈ T) by (apply (mentions_T _ _ Ho); left).
-  set (tr := src_tr src). set (sf := src_sf src).
-  destruct (held (m_pool m) t) eqn:Hheld.
-  { (* the body is already held: nothing happens *)
-    destruct (pu_held n (m_pool m) t body rel tr sf (vu_R _ _ HU) Hheld) as [Hpu HR1].
-    pose proof (add_tx_facts (mp n) (now n) t body tr) as Hfacts. cbv zeta in Hfacts.
-    destruct Hfacts as [_ Htrust].
-    rewrite Hpu. cbn [fst snd map]. cbn [first_bad fold_left]. rewrite !Z.eqb_refl. cbn [negb].
-    unfold tx_step. rewrite Hproc, Hheld. cbn [negb fold_left].
-    eexists. split; [reflexivity|].
-    set (m1 := fst (add_transaction (mp n) (now n) t body tr)) in *.
-    split.
-    - eapply InvS_frame; [exact HS|reflexivity|reflexivity|]. repeat split.
-    - destruct HU. split; cbn; try assumption.
-      + intros t' u H1 H2. destruct src; try (apply add_z_elem; left); eapply vu_VCH0; eauto.
-      + intros t' H. rewrite Htrust in H. destruct (decide (t' = t)) as [->|Hne].
-        * destruct src; cbn in H; rewrite ?orb_false_r in H; try (apply add_z_elem; right; reflexivity).
-          apply vu_VCH3, H.
-        * destruct src; try (apply add_z_elem; left); apply vu_VCH3, H.
-      + intros t' H.
-        assert (Hmono : forall x, is_trusted (mp n) x = true -> is_trusted m1 x = true).
-        { intros x Hx. rewrite Htrust. destruct (decide (x = t)) as [->|Hne]; [rewrite Hx; reflexivity|exact Hx]. }
-        assert (Hold : t' ∈ m_vnow m -> is_trusted m1 t' = true \/
-                  (exists u, unconf n !! t' = Some u /\ u_trusted u = true) \/
-                  (exists s, states n !! t' = Some s /\ (s_unsafe s = true \/ is_Some (s_proof s))) \/ ~ relT t').
-        { intros Hin. destruct (vu_VNOW0 t' Hin) as [H'|H']; [left; apply Hmono, H'|right; exact H']. }
-        destruct src; cbn in H; try (apply Hold, H).
-        * apply add_z_elem in H. destruct H as [H| ->]; [apply Hold, H|]. left. rewrite Htrust.
-          rewrite decide_True by reflexivity. apply orb_true_r.
-        * apply add_z_elem in H. destruct H as [H| ->]; [apply Hold, H|]. left. rewrite Htrust.
-          rewrite decide_True by reflexivity. apply orb_true_r. }
-  pose proof (pu_spec n m t body rel tr sf (conj HS HU) HT Hheld) as Hspec. cbv zeta in Hspec.
-  destruct Hspec as (n' & evs & Hpu & HR' & Htrust & Hmisc & HE & Hunc & Hcase & Hev1 & Hev2 & Hetx).
-  rewrite Hpu. cbn [fst snd]. clear Hpu.
-  set (cfs := conflicts_of (m_pool m) t body) in *.
-  set (cs := conflicting_held (m_pool m) t body).
-  assert (Hcs : forall x, x ∈ cs <-> x ∈ cfs) by (intros x; apply conflicting_held_conflicts_of).
-  assert (Hz : (zlen cs =? 0) = (zlen cfs =? 0)).
-  { apply zlen0_same; intros x Hx; exists x; apply Hcs; exact Hx. }
-  set (cn := negb (zlen cfs =? 0)) in *.
-  destruct Hmisc as (Hch & Hsy & Hnow & Hdl).
-  assert (Hun' : forall x u', x <> t -> unconf n' !! x = Some u' ->
-     exists u, unconf n !! x = Some u /\ u_time u' = u_time u /\ u_trusted u' = u_trusted u /\
-       u_safe u' = u_safe u /\
-       ((x ∈ cfs /\ u_unsafe u' = true) \/ (x ∉ cfs /\ u' = u))).
-  { intros x u' Hne Hu'. rewrite (Hunc x Hne) in Hu'. destruct (bool_decide (x ∈ cfs)) eqn:Eb.
-    - apply bool_decide_eq_true in Eb. destruct (unconf n !! x) as [u|]; [|discriminate].
-      cbn in Hu'. inversion Hu'. subst u'. exists u. cbn. auto 10.
-    - apply bool_decide_eq_false in Eb. exists u'. auto 10. }
-  assert (Hdom : forall x, x <> t -> (is_Some (unconf n' !! x) <-> is_Some (unconf n !! x))).
-  { intros x Hne. rewrite (Hunc x Hne). destruct (bool_decide (x ∈ cfs)); [|reflexivity].
-    rewrite fmap_is_Some. reflexivity. }
-  assert (Hprf : forall x s, tev_in evs x s -> s_proof s = None).
-  { intros x s H. destruct H as [H|H].
-    - destruct (x_new _ _ _ _ HE x s H) as (_ & _ & [Hp|(b & _ & [])]). exact Hp.
-    - destruct (x_upd _ _ _ _ HE x s H) as (so & Hso & _ & _ & _ & [Hp|(b & _ & [])]).
-      rewrite Hp. destruct (decide (x = t)) as [->|Hne].
-      + destruct Hcase as [(_ & _ & Hk & _)|[(u & u' & so' & _ & _ & Hso' & Hpo & _)|(_ & Hnone & _)]].
-        * destruct Hk. apply tkeys_elem. exists s. right. exact H.
-        * congruence.
-        * congruence.
-      + destruct (Hev1 x s (or_intror H) Hne) as (_ & Hu & _).
-        destruct (vu_US _ _ HU x Hu) as (so' & Hso' & Hpo). congruence. }
-  assert (Hust : forall x s, tev_in evs x s -> ust s = true).
-  { intros x s H. apply ust_None. eapply Hprf; eauto. }
-  (* the checks on the notifications *)
-  assert (Hbad : first_bad dl m (OTx t body rel src) (map ev_of evs) = 0).
-  { apply (gen_checks noF n m (states n')); [exact HS|exact HE| |].
-    - intros x s H. assert (x = t) by (eapply Hetx; eauto). subst x.
-      destruct Hcase as [(_ & _ & Hk & _)|[(u & u' & so & _ & _ & _ & _ & _ & _ & _ & _ & _ & _ & _ & _ & Hno)|
-                         (_ & _ & Hrel & _ & s1 & Hs1 & Hp1 & Ho1 & Hsafe1 & Hun1)]].
-      + destruct Hk. apply tkeys_elem. exists s. left. exact H.
-      + destruct (Hno s H).
-      + assert (s = s1) by (eapply Ext_unique; [exact HE|left; exact H|left; exact Hs1]). subst s1 rel.
-        exists body. cbn [op_tx_info]. rewrite Z.eqb_refl. split; [reflexivity|]. split; [exact Ho1|].
-        destruct src; [ | |exact I]; rewrite Hsafe1; reflexivity.
-    - intros x s H Hsafe Hust'. destruct (decide (x = t)) as [->|Hne].
-      + destruct Hcase as [(_ & _ & Hk & _)|[(u & u' & so & B1 & B2 & B3 & B4 & B5 & B6 & B7 & B8 & B9 & B10 & B11 & B12 & B13)|
-                           (_ & Hnone & _)]].
-        * destruct Hk. apply tkeys_elem. exists s. right. exact H.
-        * destruct (B11 s (or_intror H)) as [[_ ->]|(_ & Esf & Eus & _ & ->)]; [discriminate Hsafe|].
-          split.
-          -- intros Hin. rewrite (vu_SAFE1 _ _ HU t u Hin B1) in Eus. discriminate.
-          -- left. subst sf. destruct src; try discriminate Esf. cbn. rewrite Z.eqb_refl. apply orb_true_r.
-        * destruct (x_upd _ _ _ _ HE t s H) as (so & Hso & _). congruence.
-      + destruct (Hev1 x s (or_intror H) Hne) as (_ & _ & _ & _ & Hns). congruence. }
-  rewrite Hbad. cbn [Z.eqb negb]. rewrite Z.eqb_refl.
-  unfold tx_step. rewrite Hproc. cbn [negb]. rewrite Hheld. fold cs.
-  match goal with |- context [if ?c then 141 else _] => assert (Hb1 : c = false) end.
-  { apply has_ev_false_map. intros e He. destruct e as [x s|x s|h b]; cbn [ev_of e_kind e_t e_unsafe Z.eqb Pos.eqb andb]; try reflexivity.
-    destruct (x =? t) eqn:Ext'; [|reflexivity]. apply Z.eqb_eq in Ext'. subst x. cbn [andb].
-    rewrite Hz. fold cn.
-    destruct Hcase as [(_ & _ & Hk & _)|[(u & u' & so & _ & _ & _ & _ & _ & _ & _ & _ & _ & _ & _ & _ & Hno)|
-                       (_ & _ & Hrel & _ & s1 & Hs1 & Hp1 & Ho1 & Hsafe1 & Hun1)]].
-    - destruct Hk. apply tkeys_elem. exists s. left. exact He.
-    - destruct (Hno s He).
-    - assert (s = s1) by (eapply Ext_unique; [exact HE|left; exact He|left; exact Hs1]). subst s1.
-      rewrite Hun1. destruct cn; reflexivity. }
-  rewrite Hb1.
-  match goal with |- context [if ?c then 142 else _] => assert (Hb2 : c = false) end.
-  { apply existsb_false_iff. intros c Hc. destruct (mem c (m_live m)) eqn:El; [|reflexivity]. cbn [andb].
-    apply negb_false_iff. apply mem_elem in El. apply (vu_L _ _ HU) in El. apply Hcs in Hc.
-    destruct (Hev2 c Hc El) as (s & Hs & Hus). apply has_ev_map. exists (EUpdate c s).
-    split; [exact Hs|]. cbn. rewrite Z.eqb_refl, Hus. reflexivity. }
-  rewrite Hb2.
-  match goal with |- context [if ?c then 143 else _] => assert (Hb3 : c = false) end.
-  { destruct rel; [|reflexivity]. destruct (mem t (m_delivered m)) eqn:Ed; [reflexivity|]. cbn [andb negb].
-    apply negb_false_iff. apply mem_false in Ed.
-    assert (Hnone : states n !! t = None).
-    { destruct (states n !! t) eqn:E; [|reflexivity]. destruct Ed. apply (vs_D _ _ HS). eauto. }
-    destruct Hcase as [(A1 & A2 & A3 & [A4|(s & b & A4 & _)])|[(u & u' & so & B1 & B2 & B3 & _)|
-                       (C1 & C2 & C3 & C4 & s1 & C5 & _)]]; try congruence.
-    apply has_ev_map. exists (ETx t s1). split; [exact C5|]. cbn. rewrite Z.eqb_refl. reflexivity. }
-  rewrite Hb3.
-  match goal with |- context [if ?c then 144 else _] => assert (Hb4 : c = false) end.
-  { destruct (mem t (m_live m)) eqn:El; [|reflexivity]. rewrite Hz. fold cn. destruct cn eqn:Ecn; [|reflexivity].
-    cbn [andb negb]. apply negb_false_iff. apply mem_elem, (vu_L _ _ HU) in El. destruct El as (u0 & Hu0).
-    destruct Hcase as [(A1 & _)|[(u & u' & so & B1 & B2 & B3 & B4 & B5 & B6 & B7 & B8 & B9 & B10 & _)|
-                       (C1 & _)]]; try congruence.
-    apply has_ev_map. exists (EUpdate t (mk_unsafe_s so)). split; [apply B10; reflexivity|].
-    cbn. rewrite Z.eqb_refl. reflexivity. }
-  rewrite Hb4.
-  match goal with |- context [fold_left note_event (map ev_of evs) ?mm] => set (m1 := mm) end.
-  fold (notes m1 evs). eexists. split; [reflexivity|].
-  destruct (notes_frame m1 evs) as (N1 & N2 & N3 & N4 & N5 & N6 & N7 & N8 & N9). cbv zeta in *.
-  assert (Hdeliv : has_ev (map ev_of evs) (fun e => (e_kind e =? 1) && (e_t e =? t)) = true <-> exists s, ETx t s ∈ evs).
-  { rewrite has_ev_map. split.
-    - intros (e & He & Hf). destruct e as [x s|x s|h b]; cbn in Hf; try discriminate.
-      apply Z.eqb_eq in Hf. subst x. eauto.
-    - intros (s & Hs). exists (ETx t s). split; [exact Hs|]. cbn. rewrite Z.eqb_refl. reflexivity. }
-  split.
-  - apply (gen_states noF n m n' m1 evs); try assumption.
-    + repeat split.
-    + rewrite Hch. auto.
-    + rewrite Hch. apply (vs_chain0 _ _ HS).
-    + intros x s H. assert (x = t) by (eapply Hetx; eauto). subst x.
-      destruct Hcase as [(_ & _ & Hk & _)|[(u & u' & so & _ & _ & _ & _ & _ & _ & _ & _ & _ & _ & _ & _ & Hno)|
-                         (_ & _ & Hrel & _)]].
-      * destruct Hk. apply tkeys_elem. exists s. left. exact H.
-      * destruct (Hno s H).
-      * subst rel. exists body. exact HT.
-    + intros x s b _ _ [].
-  - assert (Hpool : forall x b, (x, b) ∈ m_pool (notes m1 evs) -> (x, b) ∈ m_pool m \/ (x = t /\ b = body)).
-    { rewrite N1. unfold m1. cbn [m_pool]. intros x b Hin. destruct (zlen body =? 0); [left; exact Hin|].
-      apply elem_of_app in Hin. destruct Hin as [Hin|Hin]; [left; exact Hin|].
-      apply elem_of_list_singleton in Hin. inversion Hin. auto. }
-    assert (Hold : forall x, x ∈ m_vouched m -> x ∈ m_vouched m1).
-    { intros x H. unfold m1. cbn [m_vouched]. destruct src; rewrite ?add_z_elem; auto. }
-    assert (Hnewv : tr = true -> t ∈ m_vouched m1).
-    { unfold m1, tr. cbn [m_vouched]. destruct src; cbn; intros; try discriminate; apply add_z_elem; auto. }
-    assert (Hkeep : forall x u0, unconf n !! x = Some u0 -> u_trusted u0 = true ->
-               exists u2, unconf n' !! x = Some u2 /\ u_trusted u2 = true).
-    { intros x u0 Hu0 H. destruct (decide (x = t)) as [->|Hne].
-      - dcase Hcase; try congruence. exists u'. split; [exact B2|]. rewrite B7.
-        assert (u0 = u) by congruence. subst u0. rewrite H. reflexivity.
-      - assert (Hs' : is_Some (unconf n' !! x)) by (apply Hdom; eauto). destruct Hs' as (u2 & Hu2).
-        destruct (Hun' x u2 Hne Hu2) as (u3 & Hu3 & _ & Htt & _). exists u2. split; [exact Hu2|]. congruence. }
-    split.
-    + rewrite N5, Hnow. apply (vu_clock _ _ HU).
-    + rewrite N6, Hsy. apply (vu_sync _ _ HU).
-    + rewrite N7, Hch. apply (vu_chain _ _ HU).
-    + rewrite Hdl. apply (vu_delay _ _ HU).
-    + rewrite N1. exact HR'.
-    + intros x b Hin. destruct (Hpool x b Hin) as [H|[-> ->]]; [apply (vu_poolT _ _ HU), H|eauto].
-    + intros x b Hin Hrel. destruct (Hpool x b Hin) as [H|[-> ->]].
-      * eapply Ext_some; [exact HE|]. eapply vu_poolS; eauto.
-      * assert (rel = true) by (eapply relT_rel; eauto). dcase Hcase.
-        -- destruct A4 as [A4|(s & b & A4 & _)]; [congruence|]. eapply Ext_some; [exact HE|]. eauto.
-        -- eapply Ext_some; [exact HE|]. eauto.
-        -- rewrite (x_in _ _ _ _ HE t s1 (or_introl C5)). eauto.
-    + intros x. rewrite (notes_live_add m1 evs x Hust). change (m_live m1) with (m_live m). rewrite (vu_L _ _ HU).
-      destruct (decide (x = t)) as [->|Hne].
-      * dcase Hcase.
-        -- rewrite A1, A2. split; [|intros (? & ?); discriminate]. intros [H|(s & H)]; [exact H|].
-           destruct A3. apply tkeys_elem. exists s. left. exact H.
-        -- rewrite B1, B2. split; eauto.
-        -- rewrite C4. split; [eauto|]. intros _. right. eauto.
-      * rewrite (Hdom x Hne). split; [|auto]. intros [H|(s & H)]; [exact H|]. destruct Hne. eapply Hetx; eauto.
-    + intros x Hx.
-      assert (Hgen : is_Some (unconf n !! x) -> exists s, states n' !! x = Some s /\ s_proof s = None).
-      { intros Hu. destruct (vu_US _ _ HU x Hu) as (so0 & Hso0 & Hp0).
-        destruct (Ext_sticky _ _ _ _ x so0 HE Hso0) as (s & Hs & _).
-        exists s. split; [exact Hs|].
-        destruct (Ext_back _ _ _ _ x s HE Hs) as [H|[_ H]]; [eapply Hprf; eauto|congruence]. }
-      destruct (decide (x = t)) as [->|Hne]; [|apply Hgen, Hdom; assumption].
-      dcase Hcase.
-      * rewrite A2 in Hx. destruct Hx as (? & ?). discriminate.
-      * apply Hgen. eauto.
-      * exists s1. split; [apply (x_in _ _ _ _ HE); left; exact C5|exact C6].
-    + intros x s Hs Hp. destruct (Ext_back _ _ _ _ x s HE Hs) as [H|[Hk H]].
-      * destruct (decide (x = t)) as [->|Hne].
-        -- dcase Hcase; [destruct A3; apply tkeys_elem; eauto|rewrite B2; eauto|rewrite C4; eauto].
-        -- apply Hdom; [exact Hne|]. apply (Hev1 x s H Hne).
-      * pose proof (vu_SU _ _ HU x s H Hp) as Hu.
-        destruct (decide (x = t)) as [->|Hne]; [|apply Hdom; assumption].
-        dcase Hcase; [rewrite A1 in Hu; destruct Hu as (? & ?); discriminate|rewrite B2; eauto|rewrite C4; eauto].
-    + intros x u0 Hu0. destruct (decide (x = t)) as [->|Hne].
-      * dcase Hcase.
-        -- congruence.
-        -- assert (u0 = u') by congruence. subst u0. rewrite B6.
-           rewrite notes_seen_old; [rewrite (lookup_seen_ext m m1) by reflexivity; eapply vu_SEEN; eauto|].
-           intros s H. destruct (B13 s H).
-        -- rewrite C4 in Hu0. inversion Hu0. subst u0. cbn [u_time].
-           rewrite notes_seen_new; [|exists s1; split; [exact C5|apply ust_None, C6]].
-           change (m_clock m1) with (m_clock m). rewrite (vu_clock _ _ HU). reflexivity.
-      * destruct (Hun' x u0 Hne Hu0) as (u1 & Hu1 & Ht & _). rewrite Ht.
-        rewrite notes_seen_old; [rewrite (lookup_seen_ext m m1) by reflexivity; eapply vu_SEEN; eauto|].
-        intros s H. destruct Hne. eapply Hetx; eauto.
-    + intros x u0 Hin Hu0. apply notes_safe in Hin. change (m_safe m1) with (m_safe m) in Hin.
-      destruct (decide (x = t)) as [->|Hne].
-      * dcase Hcase.
-        -- congruence.
-        -- assert (u0 = u') by congruence. subst u0. rewrite B8. destruct Hin as [Hin|(s & Hs & Hss)].
-           ++ rewrite (vu_SAFE1 _ _ HU t u Hin B1). reflexivity.
-           ++ destruct (B11 s Hs) as [[_ ->]|(_ & Esf & _)]; [discriminate Hss|rewrite Esf; apply orb_true_r].
-        -- rewrite C4 in Hu0. inversion Hu0. subst u0. cbn [u_safe]. destruct Hin as [Hin|(s & Hs & Hss)].
-           ++ apply (vs_SAFED _ _ HS) in Hin. rewrite C2 in Hin. destruct Hin as (? & ?); discriminate.
-           ++ assert (s = s1) by (eapply Ext_unique; [exact HE|exact Hs|left; exact C5]). subst s.
-              rewrite C8 in Hss. apply andb_true_iff in Hss. destruct Hss as [Hss _].
-              apply andb_true_iff in Hss. apply Hss.
-      * destruct (Hun' x u0 Hne Hu0) as (u1 & Hu1 & _ & _ & Hsf & _). rewrite Hsf.
-        destruct Hin as [Hin|(s & Hs & Hss)].
-        -- eapply vu_SAFE1; eauto.
-        -- destruct (Hev1 x s Hs Hne) as (_ & _ & _ & _ & Hns). rewrite Hns in Hss. discriminate.
-    + intros x u0 Hu0 Hsafe. destruct (decide (x = t)) as [->|Hne].
-      * dcase Hcase.
-        -- congruence.
-        -- assert (u0 = u') by congruence. subst u0. rewrite B8 in Hsafe.
-           destruct (u_safe u) eqn:Eus.
-           ++ destruct (vu_SAFE2 _ _ HU t u B1 Eus) as [H|H];
-                [left; apply notes_safe_mono, H|right; apply notes_unsafe_mono, H].
-           ++ cbn [orb] in Hsafe. destruct cn eqn:Ecn.
-              ** right. apply notes_unsafe. right. exists (mk_unsafe_s so).
-                 split; [right; apply B10; reflexivity|reflexivity].
-              ** destruct (s_safe so || s_unsafe so || s_cancel so) eqn:Efl.
-                 --- apply orb_true_iff in Efl.
-                     destruct Efl as [Efl|Efl]; [apply orb_true_iff in Efl; destruct Efl as [Efl|Efl]|].
-                     +++ left. apply notes_safe_mono. apply (vs_SAFE3 _ _ HS t so B3 Efl B4).
-                     +++ right. apply notes_unsafe_mono. apply (vs_UNS _ _ HS). eauto.
-                     +++ right. apply notes_unsafe_mono. apply (vs_UNS _ _ HS). exists so. split; [exact B3|].
-                         apply (vs_FL _ _ HS t so B3), Efl.
-                 --- left. apply notes_safe. right. exists (mk_safe_s so). split; [right; apply B12; auto|].
-                     cbn. apply ust_None. exact B4.
-        -- rewrite C4 in Hu0. inversion Hu0. subst u0. cbn [u_safe] in Hsafe. destruct cn eqn:Ecn.
-           ++ right. apply notes_unsafe. right. exists s1. split; [left; exact C5|]. rewrite C9. reflexivity.
-           ++ left. apply notes_safe. right. exists s1. split; [left; exact C5|].
-              rewrite C8, Hsafe, (ust_None _ C6). reflexivity.
-      * destruct (Hun' x u0 Hne Hu0) as (u1 & Hu1 & _ & _ & Hsf & _). rewrite Hsf in Hsafe.
-        destruct (vu_SAFE2 _ _ HU x u1 Hu1 Hsafe) as [H|H];
-          [left; apply notes_safe_mono, H|right; apply notes_unsafe_mono, H].
-    + rewrite N2. intros x u0 Hu0 Htr0. destruct (decide (x = t)) as [->|Hne].
-      * dcase Hcase.
-        -- congruence.
-        -- assert (u0 = u') by congruence. subst u0. rewrite B7 in Htr0. apply orb_true_iff in Htr0.
-           destruct Htr0 as [H|H]; [apply Hold; eapply vu_VCH; eauto|apply Hnewv, H].
-        -- rewrite C4 in Hu0. inversion Hu0. subst u0. apply Hnewv. exact Htr0.
-      * destruct (Hun' x u0 Hne Hu0) as (u1 & Hu1 & _ & Htt & _). rewrite Htt in Htr0.
-        apply Hold. eapply vu_VCH; eauto.
-    + rewrite N2. intros x H. rewrite Htrust in H. destruct (decide (x = t)) as [->|Hne].
-      * apply orb_true_iff in H. destruct H as [H|H]; [apply Hold, (vu_VCH2 _ _ HU), H|apply Hnewv, H].
-      * apply Hold, (vu_VCH2 _ _ HU), H.
-    + rewrite N8. intros x Hin.
-      assert (Hmono : forall y, is_trusted (mp n) y = true -> is_trusted (mp n') y = true).
-      { intros y Hy. rewrite Htrust. destruct (decide (y = t)) as [->|?]; [rewrite Hy; reflexivity|exact Hy]. }
-      assert (Hsplit : x ∈ m_vnow m \/ (x = t /\ tr = true)).
-      { unfold m1 in Hin. cbn [m_vnow] in Hin. unfold tr.
-        destruct src; cbn; rewrite ?add_z_elem in Hin; [|left; exact Hin|]; (destruct Hin as [Hin| ->]; auto). }
-      destruct Hsplit as [Hold'|[-> Htr']].
-      * destruct (vu_VNOW _ _ HU x Hold') as [H|[(u0 & Hu0 & H)|[(s & Hs & H)|H]]].
-        -- left. apply Hmono, H.
-        -- right. left. eapply Hkeep; eauto.
-        -- right. right. left. destruct (Ext_sticky _ _ _ _ x s HE Hs) as (s' & Hs' & K1 & K2 & _).
-           exists s'. split; [exact Hs'|]. destruct H; auto.
-        -- right. right. right. exact H.
-      * left. rewrite Htrust, decide_True by reflexivity. rewrite Htr'. apply orb_true_r.
-    + rewrite N9. intros x Hin.
-      assert (Hsplit : x ∈ m_vpersist m \/ (x = t /\ tr = true /\ exists s, ETx t s ∈ evs)).
-      { unfold m1 in Hin. cbn [m_vpersist] in Hin. unfold tr.
-        destruct src; cbn; [|left; exact Hin|];
-          (match type of Hin with context [if ?c then _ else _] => destruct c eqn:Ehe end; [|left; exact Hin];
-           apply add_z_elem in Hin; destruct Hin as [Hin| ->]; [left; exact Hin|];
-           right; split; [reflexivity|split; [reflexivity|apply Hdeliv; reflexivity]]). }
-      destruct Hsplit as [Hold'|(-> & Htr' & s & Hs)].
-      * destruct (vu_VPER _ _ HU x Hold') as [(u0 & Hu0 & H)|(s & Hs & H)].
-        -- left. eapply Hkeep; eauto.
-        -- right. destruct (Ext_sticky _ _ _ _ x s HE Hs) as (s' & Hs' & K1 & K2 & _). eauto.
-      * left. dcase Hcase.
-        -- destruct A3. apply tkeys_elem. exists s. left. exact Hs.
-        -- destruct (B13 s Hs).
-        -- eexists. split; [exact C4|]. exact Htr'.
-    + intros x u0 Hu0 Hun0. destruct (decide (x = t)) as [->|Hne].
-      * dcase Hcase.
-        -- congruence.
-        -- assert (u0 = u') by congruence. subst u0. rewrite B9 in Hun0. apply orb_true_iff in Hun0.
-           destruct Hun0 as [H|H].
-           ++ apply notes_unsafe_mono. apply (vu_UUNS _ _ HU t u B1 H).
-           ++ apply notes_unsafe. right. exists (mk_unsafe_s so). split; [right; apply B10, H|reflexivity].
-        -- rewrite C4 in Hu0. inversion Hu0. subst u0. discriminate Hun0.
-      * destruct (Hun' x u0 Hne Hu0) as (u1 & Hu1 & _ & _ & _ & [[Hc _]|[_ Heq]]).
-        -- destruct (Hev2 x Hc) as (s & Hs & Hus); [eauto|]. apply notes_unsafe. right. exists s.
-           split; [right; exact Hs|]. rewrite Hus. reflexivity.
-        -- subst u0. apply notes_unsafe_mono. apply (vu_UUNS _ _ HU x u1 Hu1 Hun0).
-    + rewrite N3. intros x Hin Hrel.
-      assert (Hsplit : x ∈ m_conflicted m \/ (cn = true /\ (x = t \/ x ∈ cfs))).
-      { unfold m1 in Hin. cbn [m_conflicted] in Hin. rewrite Hz in Hin.
-        assert (Ez : (zlen cfs =? 0) = negb cn) by (unfold cn; rewrite negb_involutive; reflexivity).
-        rewrite Ez in Hin. destruct cn; cbn [negb] in Hin; [|left; exact Hin].
-        apply fold_add_z_elem in Hin. rewrite add_z_elem, Hcs in Hin. tauto. }
-      destruct Hsplit as [Hold'|(Ecn & [->|Hc])].
-      * destruct (vu_CONF _ _ HU x Hold' Hrel) as (s & Hs & H).
-        destruct (Ext_sticky _ _ _ _ x s HE Hs) as (s' & Hs' & K1 & K2 & _).
-        exists s'. split; [exact Hs'|]. destruct H; auto.
-      * assert (Hr : rel = true) by (eapply relT_rel; eauto). dcase Hcase.
-        -- destruct A4 as [A4|(s & b & A4 & A5)]; [congruence|].
-           destruct (Ext_sticky _ _ _ _ t s HE A4) as (s' & Hs' & _ & K2 & _).
-           exists s'. split; [exact Hs'|]. right. apply K2. rewrite A5. eauto.
-        -- exists (mk_unsafe_s so). split; [apply (x_in _ _ _ _ HE); right; apply B10, Ecn|left; reflexivity].
-        -- exists s1. split; [apply (x_in _ _ _ _ HE); left; exact C5|left]. rewrite C9. exact Ecn.
-      * pose proof Hc as Hc'. apply conflicts_of_elem in Hc'. destruct Hc' as (Hne & b' & Hb' & _).
-        destruct (vu_poolS _ _ HU x b' Hb' Hrel) as (so0 & Hso0).
-        destruct (unconf n !! x) as [u0|] eqn:Eu0.
-        -- destruct (Hev2 x Hc) as (s & Hs & Hus); [eauto|].
-           exists s. split; [apply (x_in _ _ _ _ HE); right; exact Hs|left; exact Hus].
-        -- destruct (Ext_sticky _ _ _ _ x so0 HE Hso0) as (s' & Hs' & _ & K2 & _).
-           exists s'. split; [exact Hs'|]. right. apply K2.
-           destruct (s_proof so0) eqn:Ep; [eauto|].
-           destruct (vu_SU _ _ HU x so0 Hso0 Ep) as (? & ?). congruence.
-Qed.
-
-Lemma step_tx n m t body rel src : Inv n m -> OTx t body rel src ∈ all ->
-  exists m', monitor_step dl m (OTx t body rel src) (snd (step n (OTx t body rel src))) = (0, m') /\
-             Inv (fst (step n (OTx t body rel src))) m'.
-Proof.
-  intros HI Ho. cbn [step]. destruct src.
-  - destruct (insync n) eqn:Esy.
-    + pose proof (tx_processed n m t body rel STrusted HI Ho) as H. cbv zeta in H. cbn [src_tr src_sf] in H.
-      destruct (process_unconfirmed n t body rel true false) as [n1 evs]. cbn [fst snd] in *.
-      apply H. rewrite (vu_sync _ _ (proj2 HI)). exact Esy.
-    + cbn [fst snd]. change [OK] with (OK :: enc_events []).
-      rewrite monitor_step_events by reflexivity. cbv zeta. cbn [map first_bad fold_left Z.eqb negb].
-      rewrite Z.eqb_refl. unfold tx_step. rewrite (vu_sync _ _ (proj2 HI)), Esy. cbn.
-      exists m. split; [reflexivity|exact HI].
-  - pose proof (tx_processed n m t body rel SUntrusted HI Ho eq_refl) as H. cbv zeta in H. cbn [src_tr src_sf] in H.
-    destruct (process_unconfirmed n t body rel false false) as [n1 evs]. cbn [fst snd] in *. exact H.
-  - pose proof (tx_processed n m t body rel SLocal HI Ho eq_refl) as H. cbv zeta in H. cbn [src_tr src_sf] in H.
-    destruct (process_unconfirmed n t body rel true true) as [n1 evs]. cbn [fst snd] in *. exact H.
-Qed.
-
-(* ---------------------------------------------------------------------------------------- *)
-(* a block *)
-Lemma step_block n m b prev txs valid : Inv n m -> OBlock b prev txs valid ∈ all ->
-  exists m', monitor_step dl m (OBlock b prev txs valid) (snd (process_block n b prev txs valid)) = (0, m') /\
-             Inv (fst (process_block n b prev txs valid)) m'.
-Proof.
-  intros [HS HU] Ho.
-  destruct (v_blk _ _ Hv b prev txs valid Ho) as [Hb0 Hpd]. destruct (pd_spec txs Hpd) as [Hndt Hdisj].
-  assert (Href : exists m', monitor_step dl m (OBlock b prev txs valid) [ERR] = (0, m') /\ Inv n m').
-  { change [ERR] with (ERR :: enc_events []). rewrite monitor_step_events by reflexivity. cbn.
-    exists m. split; [reflexivity|split; assumption]. }
-  unfold process_block.
-  destruct (in_chain n b) eqn:Eic; [exact Href|].
-  destruct (negb (default (-99) (last (chain n)) =? prev)); [exact Href|].
-  destruct (negb valid); [exact Href|]. clear Href.
-  assert (Hnb : b ∉ chain n) by (apply mem_false; exact Eic).
-  cbv zeta.
-  set (n0 := Node (mp n) (unconf n) (states n) (blocktxs n) (chain n ++ [b]) (insync n) (now n) (delay n)).
-  set (h := zlen (chain n0) - 1).
-  set (unc := sorted_keys (unconf n0)).
-  assert (Hblk : forall t body rel, (t, body, rel) ∈ txs -> (t, body, rel) ∈ T).
-  { intros t body rel Hin. apply (mentions_T _ _ Ho). exact Hin. }
-  assert (Hinb : forall t, t ∈ txids txs -> inblock t b).
-  { intros t Ht. exists prev, txs, valid. auto. }
-  assert (Hfresh : forall t s, t ∈ txids txs -> states n !! t = Some s -> s_proof s = None).
-  { intros t s Ht Hs. destruct (s_proof s) as [b'|] eqn:Ep; [|reflexivity].
-    destruct (vs_PRF _ _ HS t s b' Hs Ep) as [Hc (p2 & txs2 & v2 & Ho2 & Ht2)].
-    assert (b' = b) by (eapply (v_uniq _ _ Hv); eauto). subst b'. contradiction. }
-  assert (Hunc_elem : forall x, x ∈ unc <-> is_Some (unconf n !! x)).
-  { intros x. apply sorted_keys_elem. }
-  assert (Hnone : forall t, t ∈ txids txs -> t ∉ unc -> states n !! t = None).
-  { intros t Ht Hnu. destruct (states n !! t) as [s|] eqn:Es; [|reflexivity]. destruct Hnu.
-    apply Hunc_elem. apply (vu_SU _ _ HU t s Es). apply (Hfresh t s Ht Es). }
-  assert (Hcons : forall t body rel b', (t, body, rel) ∈ txs -> (t, b') ∈ m_pool m -> b' = body).
-  { intros t body rel b' Hin Hb'. destruct (vu_poolT _ _ HU t b' Hb') as (rel' & HT').
-    destruct (T_body _ _ _ _ _ HT' (Hblk _ _ _ Hin)) as [-> _]. reflexivity. }
-  assert (Hvnt : forall c, c ∈ blk_victims (m_pool m) txs -> c ∉ txids txs).
-  { intros c Hc Hct. apply blk_victims_elem in Hc. destruct Hc as (x & Hx & Hne & bc & Hbc & Hsh).
-    apply txids_elem in Hct. destruct Hct as (body' & rel' & Hy).
-    pose proof (Hcons _ _ _ _ Hy Hbc) as ->.
-    apply (Hdisj x (c, body', rel') Hx Hy); [cbn; congruence|exact Hsh]. }
-  destruct (block_txs_spec (fun b' => b' = b) (states n) h txs n0 unc [] [EHeaders h b] (m_pool m)) as
-    (n1 & unc1 & pend & evs1 & Hbt & Hun1 & Hmisc1 & HR1 & HE1 & Hst1 & Hst1' & Hunc1 & Hev1a & Hev1b & Hndp & Hp1 & Hp2).
-  { exact (vu_R _ _ HU). }
-  { exact Hcons. }
-  { exact Hvnt. }
-  { exact Hndt. }
-  { apply sorted_keys_NoDup. }
-  { intros t body Hin Hnu. apply held_false. intros b' Hb'.
-    assert (Hrel : relT t) by (exists body; apply Hblk; exact Hin).
-    destruct (vu_poolS _ _ HU t b' Hb' Hrel) as (s & Hs).
-    assert (Htt : t ∈ txids txs) by (apply txids_elem; eauto).
-    rewrite (Hnone t Htt Hnu) in Hs. discriminate. }
-  { intros c Hc. apply Hunc_elem in Hc. destruct (vu_US _ _ HU c Hc) as (s & Hs & _). cbn. eauto. }
-  { intros c bc _. cbn. apply not_elem_of_nil. }
-  { apply Ext_hdr. }
-  change ([] ++ pend) with pend in Hbt.
-  pose proof (block_txs_trusted h txs n0 unc [] [EHeaders h b] (m_pool m) _ (vu_R _ _ HU) Hcons Hbt) as Htrust.
-  cbn [fst mp] in Htrust.
-  rewrite Hbt.
-  destruct (block_notify_spec (fun b' => b' = b) (states n) b eq_refl pend Hndp n1 ([EHeaders h b] ++ evs1)) as
-    (n2 & evs2 & Hbn & Hmp2 & Hun2 & Hmisc2 & HE2 & Hev2a & Hev2b).
-  { intros t body nw sf Hin. destruct (Hp1 t body nw sf Hin) as (rel & Hin' & Hc).
-    assert (Htt : t ∈ txids txs) by (apply txids_elem; eauto).
-    assert (Hnk : t ∉ tkeys evs1).
-    { intros Hk. apply tkeys_elem in Hk. destruct Hk as (s & Hk). destruct (Hev1a t s Hk) as (Hv' & _).
-      exact (Hvnt t Hv' Htt). }
-    assert (Hnk' : t ∉ tkeys ([EHeaders h b] ++ evs1)).
-    { rewrite tkeys_app, not_elem_of_app. split; [cbn; apply not_elem_of_nil|exact Hnk]. }
-    split; [exact Hnk'|].
-    destruct nw.
-    - destruct Hc as [-> Hnu]. rewrite (x_out _ _ _ _ HE1 t Hnk'). apply Hnone; assumption.
-    - apply Hst1. cbn. apply Hunc_elem in Hc. destruct (vu_US _ _ HU t Hc) as (s & Hs & _). eauto. }
-  { exact HE1. }
-  rewrite Hbn. cbn [fst snd].
-  rewrite <- app_assoc in HE2 |- *.
-  set (E := evs1 ++ evs2) in *.
-  change ([EHeaders h b] ++ E) with (EHeaders h b :: E) in *.
-  set (nf := set_unconf n2 (restrict_unconf (unconf n2) unc1)).
-  assert (HEv : forall x s, tev_in (EHeaders h b :: E) x s <-> tev_in E x s).
-  { intros x s. unfold tev_in. rewrite !elem_of_cons.
-    split; [intros [[H|H]|[H|H]]; try discriminate; auto|tauto]. }
-  assert (Hcan : forall x s, tev_in evs1 x s ->
-            s_proof s = None /\ ust s = true /\ s_safe s = false /\ s_unsafe s = true /\ s_cancel s = true /\
-            x ∈ blk_victims (m_pool m) txs /\ x ∈ unc /\ x ∉ txids txs /\ EUpdate x s ∈ evs1).
-  { intros x s H. destruct (Hev1a x s H) as (K1 & K2 & K3 & K4 & K5 & K6 & so & Hso & Hp).
-    assert (Hpn : s_proof s = None).
-    { rewrite Hp. apply Hunc_elem in K2. destruct (vu_US _ _ HU x K2) as (so' & Hso' & Hp'). congruence. }
-    split; [exact Hpn|]. split; [apply ust_None, Hpn|]. auto 10 using Hvnt. }
-  assert (Hnot : forall x s, tev_in evs2 x s ->
-            s_proof s = Some b /\ ust s = false /\ s_depth s = 0 /\ x ∈ txids txs /\
-            exists body nw sf, (x, body, nw, sf) ∈ pend /\
-              (if nw : bool then ETx x s ∈ evs2 /\ outs_ok body (s_outs s) = true /\ (x, body, true) ∈ txs /\ x ∉ unc
-               else EUpdate x s ∈ evs2 /\ x ∈ unc)).
-  { intros x s H. destruct (Hev2a x s H) as (body & nw & sf & Hin & Hp & Hd & Hk).
-    destruct (Hp1 x body nw sf Hin) as (rel & Hin' & Hc).
-    split; [exact Hp|]. split; [apply (ust_Some s b Hp); lia|]. split; [exact Hd|].
-    split; [apply txids_elem; eauto|]. exists body, nw, sf. split; [exact Hin|].
-    destruct nw.
-    - destruct Hk as [Hk1 Hk2]. destruct Hc as [-> Hc]. auto.
-    - auto. }
-  assert (HEsplit : forall x s, tev_in E x s -> tev_in evs1 x s \/ tev_in evs2 x s).
-  { intros x s H. apply tev_in_app. exact H. }
-  assert (HE1in : forall e, e ∈ evs1 -> e ∈ EHeaders h b :: E).
-  { intros e He. right. unfold E. apply elem_of_app. left. exact He. }
-  assert (HE2in : forall e, e ∈ evs2 -> e ∈ EHeaders h b :: E).
-  { intros e He. right. unfold E. apply elem_of_app. right. exact He. }
-  destruct Hmisc1 as (Hch1 & Hsy1 & Hnow1 & Hdl1). destruct Hmisc2 as (Hch2 & Hsy2 & Hnow2 & Hdl2).
-  assert (Hchf : chain nf = chain n ++ [b]).
-  { subst nf. cbn [chain set_unconf]. rewrite Hch2, Hch1. reflexivity. }
-  (* the checks on the notifications *)
-  assert (Hbad : first_bad dl m (OBlock b prev txs valid) (map ev_of (EHeaders h b :: E)) = 0).
-  { apply (gen_checks (fun b' => b' = b) n m (states n2)); [exact HS|exact HE2| |].
-    - intros t s H.
-      destruct (x_new _ _ _ _ HE2 t s H) as (Hn & _).
-      assert (Hin : tev_in E t s) by (apply HEv; left; exact H).
-      destruct (HEsplit t s Hin) as [H1|H2].
-      + destruct (Hev1a t s H1) as (_ & _ & _ & _ & _ & _ & so & Hso & _). congruence.
-      + destruct (Hnot t s H2) as (_ & _ & _ & _ & body & nw & sf & Hpin & Hk). destruct nw.
-        * destruct Hk as (_ & Hok & Htx & _). exists body. cbn [op_tx_info].
-          rewrite (find_tx txs t body true Hndt Htx). split; [reflexivity|]. split; [exact Hok|exact I].
-        * destruct Hk as [Hk _]. destruct (x_upd _ _ _ _ HE2 t s) as (so & Hso & _); [|congruence].
-          apply HE2in, Hk.
-    - intros x s H Hsafe Hust'.
-      assert (Hin : tev_in E x s) by (apply HEv; right; exact H).
-      destruct (HEsplit x s Hin) as [H1|H2].
-      + destruct (Hcan x s H1) as (_ & _ & Hns & _). congruence.
-      + destruct (Hnot x s H2) as (_ & Hnu & _). congruence. }
-  rewrite monitor_step_events by reflexivity. cbv zeta. rewrite Hbad. cbn [Z.eqb negb]. rewrite Z.eqb_refl.
-  assert (Hh : h = zlen (m_chain m)).
-  { rewrite (vu_chain _ _ HU). subst h n0. cbn [chain]. unfold zlen. rewrite app_length. cbn [length]. lia. }
-  destruct (block_step_ok m b txs (ev_of (EHeaders h b)) (map ev_of E)) as (cf' & Hbs & Hcf).
-  { cbn [ev_of e_kind e_t e_proof]. rewrite <- Hh, !Z.eqb_refl. reflexivity. }
-  { intros c Hc Hl. change (ev_of (EHeaders h b) :: map ev_of E) with (map ev_of (EHeaders h b :: E)).
-    apply (vu_L _ _ HU) in Hl. apply Hunc_elem in Hl. destruct (Hev1b c Hc Hl) as (s & Hs).
-    destruct (Hcan c s (or_intror Hs)) as (_ & _ & _ & Hu & Hcc & _).
-    apply (count_cancel_one c s); [exact (x_nodup _ _ _ _ HE2)|apply HE1in, Hs|exact Hcc|exact Hu]. }
-  { intros t body rel Hin ->. change (ev_of (EHeaders h b) :: map ev_of E) with (map ev_of (EHeaders h b :: E)).
-    pose proof (Hp2 t body true Hin) as Hp. destruct (bool_decide (t ∈ unc)) eqn:Eb.
-    - apply bool_decide_eq_true in Eb.
-      assert (Hd : mem t (m_delivered m) = true).
-      { apply mem_elem, (vs_D _ _ HS). apply Hunc_elem in Eb. destruct (vu_US _ _ HU t Eb) as (s & Hs & _). eauto. }
-      rewrite Hd. destruct (Hev2b t body false true Hp) as (s & Hps & Hds & Hk).
-      apply has_ev_map. exists (EUpdate t s). split; [apply HE2in, Hk|].
-      cbn [ev_of e_kind e_t e_proof e_depth]. rewrite Hps, Hds. cbn [pz]. rewrite !Z.eqb_refl. reflexivity.
-    - apply bool_decide_eq_false in Eb. destruct (Hp eq_refl) as (sf & Hsf).
-      assert (Hd : mem t (m_delivered m) = false).
-      { apply mem_false. intros Hd. apply (vs_D _ _ HS) in Hd.
-        rewrite (Hnone t) in Hd; [destruct Hd as (? & ?); discriminate|apply txids_elem; eauto|exact Eb]. }
-      rewrite Hd. destruct (Hev2b t body true sf Hsf) as (s & Hps & Hds & Hk).
-      apply has_ev_map. exists (ETx t s). split; [apply HE2in, Hk|].
-      cbn [ev_of e_kind e_t e_proof e_depth]. rewrite Hps, Hds. cbn [pz]. rewrite !Z.eqb_refl. reflexivity. }
-  cbn [map]. rewrite Hbs.
-  change (ev_of (EHeaders h b) :: map ev_of E) with (map ev_of (EHeaders h b :: E)).
-  match goal with |- context [fold_left note_event _ ?mm] => set (m1 := mm) end.
-  fold (notes m1 (EHeaders h b :: E)). eexists. split; [reflexivity|].
-  destruct (notes_frame m1 (EHeaders h b :: E)) as (N1 & N2 & N3 & N4 & N5 & N6 & N7 & N8 & N9). cbv zeta in *.
-  set (A := EHeaders h b :: E) in *.
-  assert (Hall : forall x s, tev_in A x s -> tev_in evs1 x s \/ tev_in evs2 x s).
-  { intros x s H. apply HEsplit, HEv, H. }
-  assert (HETx : forall t s, ETx t s ∈ A -> ust s = false /\ exists body, (t, body, true) ∈ txs).
-  { intros t s H. destruct (x_new _ _ _ _ HE2 t s H) as (Hn & _).
-    destruct (Hall t s (or_introl H)) as [H1|H2].
-    - destruct (Hev1a t s H1) as (_ & _ & _ & _ & _ & _ & so & Hso & _). congruence.
-    - destruct (Hnot t s H2) as (_ & Hu & _ & _ & body & nw & sf & Hpin & Hk). split; [exact Hu|]. destruct nw.
-      + destruct Hk as (_ & _ & Htx & _). eauto.
-      + destruct Hk as [Hk _]. destruct (x_upd _ _ _ _ HE2 t s) as (so & Hso & _); [|congruence].
-        apply HE2in, Hk. }
-  assert (Hunf : forall x u, unconf nf !! x = Some u <-> unconf n !! x = Some u /\ x ∉ txids txs).
-  { intros x u. subst nf. cbn [unconf set_unconf]. rewrite restrict_lookup, Hun2, Hun1, Hunc1, Hunc_elem.
-    change (unconf n0) with (unconf n). split.
-    - intros (H1 & H2 & H3). auto.
-    - intros (H1 & H3). split; [exact H1|]. split; [eauto|exact H3]. }
-  assert (Hpend_upd : forall x, x ∈ txids txs -> x ∈ unc -> exists s, EUpdate x s ∈ evs2 /\ s_proof s = Some b).
-  { intros x Hx Hu. apply txids_elem in Hx. destruct Hx as (body & rel & Hin).
-    pose proof (Hp2 x body rel Hin) as Hp. rewrite bool_decide_eq_true_2 in Hp by exact Hu.
-    destruct (Hev2b _ _ _ _ Hp) as (s & Hps & _ & Hk). eauto. }
-  assert (Hconf_tx : forall x, x ∈ txids txs -> relT x ->
-            exists s, states nf !! x = Some s /\ is_Some (s_proof s)).
-  { intros x Hx Hrel. apply txids_elem in Hx. destruct Hx as (body & rel & Hin).
-    assert (rel = true) by (eapply relT_rel; [exact Hrel|apply Hblk; exact Hin]). subst rel.
-    pose proof (Hp2 x body true Hin) as Hp. destruct (bool_decide (x ∈ unc)).
-    - destruct (Hev2b _ _ _ _ Hp) as (s & Hps & _ & Hk). exists s.
-      split; [apply (x_in _ _ _ _ HE2); right; apply HE2in, Hk|rewrite Hps; eauto].
-    - destruct (Hp eq_refl) as (sf & Hsf). destruct (Hev2b _ _ _ _ Hsf) as (s & Hps & _ & Hk). exists s.
-      split; [apply (x_in _ _ _ _ HE2); left; apply HE2in, Hk|rewrite Hps; eauto]. }
-  assert (Hvic : forall x, x ∈ blk_victims (m_pool m) txs -> relT x ->
-            exists s, states nf !! x = Some s /\ (s_unsafe s = true \/ is_Some (s_proof s))).
-  { intros x Hx Hrel. pose proof Hx as Hx'. apply blk_victims_elem in Hx'.
-    destruct Hx' as (y & _ & _ & bc & Hbc & _).
-    destruct (vu_poolS _ _ HU x bc Hbc Hrel) as (so & Hso).
-    destruct (decide (x ∈ unc)) as [Hu|Hu].
-    - destruct (Hev1b x Hx Hu) as (s & Hs). destruct (Hcan x s (or_intror Hs)) as (_ & _ & _ & Hus & _).
-      exists s. split; [apply (x_in _ _ _ _ HE2); right; apply HE1in, Hs|left; exact Hus].
-    - destruct (Ext_sticky _ _ _ _ x so HE2 Hso) as (s' & Hs' & _ & K2 & _).
-      exists s'. split; [exact Hs'|]. right. apply K2.
-      destruct (s_proof so) eqn:Ep; [eauto|]. destruct Hu. apply Hunc_elem. eapply vu_SU; eauto. }
-  assert (Hkeep : forall x u, unconf n !! x = Some u -> u_trusted u = true ->
-            (exists u2, unconf nf !! x = Some u2 /\ u_trusted u2 = true) \/
-            (exists s, states nf !! x = Some s /\ is_Some (s_proof s))).
-  { intros x u Hu Htr. destruct (decide (x ∈ txids txs)) as [Hx|Hx].
-    - right. destruct (Hpend_upd x Hx) as (s & Hs & Hps); [apply Hunc_elem; eauto|].
-      exists s. split; [apply (x_in _ _ _ _ HE2); right; apply HE2in, Hs|rewrite Hps; eauto].
-    - left. exists u. split; [apply Hunf; auto|exact Htr]. }
-  split.
-  - apply (gen_states (fun b' => b' = b) n m nf m1 A HS); [repeat split|exact HE2| | | |].
-    + intros b' Hb'. rewrite Hchf. apply elem_of_app. left. exact Hb'.
-    + intros b' Hb'. rewrite Hchf in Hb'. apply elem_of_app in Hb'.
-      destruct Hb' as [Hb'|Hb']; [apply (vs_chain0 _ _ HS), Hb'|]. apply elem_of_list_singleton in Hb'. lia.
-    + intros t s H. destruct (HETx t s H) as (_ & body & Htx). exists body. apply Hblk. exact Htx.
-    + intros t s b' H Hp ->. split; [rewrite Hchf; apply elem_of_app; right; left|]. apply Hinb.
-      destruct (Hall t s H) as [H1|H2].
-      * destruct (Hcan t s H1) as (Hpn & _). congruence.
-      * apply (Hnot t s H2).
-  - split.
-    + rewrite N5. subst nf. cbn [now set_unconf]. rewrite Hnow2, Hnow1. apply (vu_clock _ _ HU).
-    + rewrite N6. subst nf. cbn [insync set_unconf]. rewrite Hsy2, Hsy1. apply (vu_sync _ _ HU).
-    + rewrite N7, Hchf. unfold m1. cbn [m_chain]. rewrite (vu_chain _ _ HU). reflexivity.
-    + subst nf. cbn [delay set_unconf]. rewrite Hdl2, Hdl1. apply (vu_delay _ _ HU).
-    + rewrite N1. subst nf. cbn [mp set_unconf]. rewrite Hmp2. exact HR1.
-    + rewrite N1. intros x bx Hin. apply (vu_poolT _ _ HU). eapply blk_pool_sub. exact Hin.
-    + rewrite N1. intros x bx Hin Hrel. apply (Ext_some _ _ _ _ x HE2). eapply vu_poolS; [exact HU| |exact Hrel].
-      eapply blk_pool_sub. exact Hin.
-    + intros x. rewrite (notes_live_rem m1 A x) by (intros y s H; apply (HETx y s H)).
-      change (m_live m1) with (m_live m). rewrite (vu_L _ _ HU). split.
-      * intros [(u & Hu) Hno]. exists u. apply Hunf. split; [exact Hu|]. intros Hx.
-        destruct (Hpend_upd x Hx) as (s & Hs & Hps); [apply Hunc_elem; eauto|].
-        apply Hno. exists s. split; [right; apply HE2in, Hs|]. apply (ust_Some s b Hps). lia.
-      * intros (u & Hu). apply Hunf in Hu. destruct Hu as [Hu Hx]. split; [eauto|].
-        intros (s & Hs & Hus). destruct (Hall x s Hs) as [H1|H2].
-        -- destruct (Hcan x s H1) as (_ & Hu1 & _). congruence.
-        -- destruct (Hnot x s H2) as (_ & _ & _ & Hx' & _). contradiction.
-    + intros x (u & Hu). apply Hunf in Hu. destruct Hu as [Hu Hx].
-      destruct (vu_US _ _ HU x) as (so & Hso & Hpo); [eauto|].
-      destruct (Ext_sticky _ _ _ _ x so HE2 Hso) as (s & Hs & _).
-      exists s. split; [exact Hs|].
-      destruct (Ext_back _ _ _ _ x s HE2 Hs) as [H|[_ H]]; [|congruence].
-      destruct (Hall x s H) as [H1|H2].
-      * apply (Hcan x s H1).
-      * destruct (Hnot x s H2) as (_ & _ & _ & Hx' & _). contradiction.
-    + intros x s Hs Hp. destruct (Ext_back _ _ _ _ x s HE2 Hs) as [H|[Hk H]].
-      * destruct (Hall x s H) as [H1|H2].
-        -- destruct (Hcan x s H1) as (_ & _ & _ & _ & _ & _ & Hu & Hx & _).
-           apply Hunc_elem in Hu. destruct Hu as (u & Hu). exists u. apply Hunf. auto.
-        -- destruct (Hnot x s H2) as (Hps & _). congruence.
-      * destruct (vu_SU _ _ HU x s H Hp) as (u & Hu). exists u. apply Hunf. split; [exact Hu|].
-        intros Hx. destruct (Hpend_upd x Hx) as (s' & Hs' & _); [apply Hunc_elem; eauto|].
-        apply Hk, tkeys_elem. exists s'. right. apply HE2in, Hs'.
-    + intros x u Hu. apply Hunf in Hu. destruct Hu as [Hu Hx].
-      rewrite notes_seen_old; [rewrite (lookup_seen_ext m m1) by reflexivity; eapply vu_SEEN; eauto|].
-      intros s H. apply (HETx x s H).
-    + intros x u Hin Hu. apply Hunf in Hu. destruct Hu as [Hu Hx].
-      apply notes_safe in Hin. change (m_safe m1) with (m_safe m) in Hin.
-      destruct Hin as [Hin|(s & Hs & Hss)]; [eapply vu_SAFE1; eauto|].
-      apply andb_true_iff in Hss. destruct Hss as [Hs1 Hs2]. destruct (Hall x s Hs) as [H1|H2].
-      * destruct (Hcan x s H1) as (_ & _ & Hns & _). congruence.
-      * destruct (Hnot x s H2) as (_ & Hnu & _). congruence.
-    + intros x u Hu Hsafe. apply Hunf in Hu. destruct Hu as [Hu Hx].
-      destruct (vu_SAFE2 _ _ HU x u Hu Hsafe) as [H|H];
-        [left; apply notes_safe_mono, H|right; apply notes_unsafe_mono, H].
-    + rewrite N2. intros x u Hu Htr. apply Hunf in Hu. destruct Hu as [Hu Hx].
-      apply (vu_VCH _ _ HU x u Hu Htr).
-    + rewrite N2. intros x H. apply (vu_VCH2 _ _ HU). subst nf. cbn [mp set_unconf] in H. rewrite Hmp2 in H.
-      apply (Htrust x), H.
-    + rewrite N8. intros x Hin.
-      destruct (vu_VNOW _ _ HU x Hin) as [H|[(u & Hu & H)|[(s & Hs & H)|H]]].
-      * destruct (proj2 (Htrust x) H) as [K|[K|K]].
-        -- left. subst nf. cbn [mp set_unconf]. rewrite Hmp2. exact K.
-        -- pose proof K as K'. apply txids_elem in K'. destruct K' as (body & rel & Hbin). destruct rel.
-           ++ right. right. left. destruct (Hconf_tx x K) as (s & Hs & Hps); [exists body; apply Hblk, Hbin|].
-              exists s. auto.
-           ++ right. right. right. intros (body' & Hb'). destruct (T_body _ _ _ _ _ Hb' (Hblk _ _ _ Hbin)) as [_ Hc].
-              discriminate.
-        -- pose proof K as K'. apply blk_victims_elem in K'. destruct K' as (y & _ & _ & bc & Hbc & _).
-           destruct (vu_poolT _ _ HU x bc Hbc) as (rel & HTx). destruct rel.
-           ++ right. right. left. apply Hvic; [exact K|]. exists bc. exact HTx.
-           ++ right. right. right. intros (body' & Hb'). destruct (T_body _ _ _ _ _ Hb' HTx) as [_ Hc].
-              discriminate.
-      * destruct (Hkeep x u Hu H) as [K|(s & Hs & Hps)]; [right; left; exact K|].
-        right. right. left. exists s. auto.
-      * right. right. left. destruct (Ext_sticky _ _ _ _ x s HE2 Hs) as (s' & Hs' & K1 & K2 & _).
-        exists s'. split; [exact Hs'|]. destruct H; auto.
-      * right. right. right. exact H.
-    + rewrite N9. intros x Hin. destruct (vu_VPER _ _ HU x Hin) as [(u & Hu & H)|(s & Hs & H)].
-      * apply (Hkeep x u Hu H).
-      * right. destruct (Ext_sticky _ _ _ _ x s HE2 Hs) as (s' & Hs' & K1 & K2 & _). eauto.
-    + intros x u Hu Hun. apply Hunf in Hu. destruct Hu as [Hu Hx].
-      apply notes_unsafe_mono. apply (vu_UUNS _ _ HU x u Hu Hun).
-    + rewrite N3. intros x Hin Hrel. unfold m1 in Hin. cbn [m_conflicted] in Hin. apply Hcf in Hin.
-      destruct Hin as [Hin|Hin]; [|apply Hvic; assumption].
-      destruct (vu_CONF _ _ HU x Hin Hrel) as (s & Hs & H).
-      destruct (Ext_sticky _ _ _ _ x s HE2 Hs) as (s' & Hs' & K1 & K2 & _).
-      exists s'. split; [exact Hs'|]. destruct H; auto.
-Qed.
-
-(* ---------------------------------------------------------------------------------------- *)
-(* every operation of the history *)
-Lemma step_sim n m o : Inv n m -> o ∈ all ->
-  exists m', monitor_step dl m o (snd (step n o)) = (0, m') /\ Inv (fst (step n o)) m'.
-Proof.
-  intros HI Ho. destruct o as [t body rel src|t trusted|b prev txs valid| |dt|b| |t|].
-  - apply step_tx; assumption.
-  - cbn [step]. pose proof (step_inv n m t trusted HI) as H. cbv zeta in H. exact H.
-  - cbn [step]. apply step_block; assumption.
-  - cbn [step]. pose proof (step_delay n m HI) as H. destruct (delay_check n) as [n1 evs]. exact H.
-  - cbn [step fst snd]. apply step_advance; [exact HI|apply (v_adv _ _ Hv), Ho].
-  - cbn [step fst snd]. apply step_setsync. exact HI.
-  - cbn [step fst snd]. apply step_restart. exact HI.
-  - cbn [step fst snd]. apply step_gettx. exact HI.
-  - cbn [step fst snd]. apply step_unconf. exact HI.
-Qed.
-
-Lemma Inv_init : Inv (n_init dl) ms_init.
-Proof.
-  split.
-  - split; cbn.
-    + intros b Hb. apply elem_of_list_singleton in Hb. lia.
-    + intros t. rewrite lookup_empty. split; [intros H; apply elem_of_nil in H; destruct H|].
-      intros (? & ?). discriminate.
-    + intros t s H. rewrite lookup_empty in H. discriminate.
-    + intros t. split; [intros H; apply elem_of_nil in H; destruct H|].
-      intros (s & H & _). rewrite lookup_empty in H. discriminate.
-    + intros t s H. rewrite lookup_empty in H. discriminate.
-    + intros t H. apply elem_of_nil in H. destruct H.
-    + intros t (s & H). rewrite lookup_empty in H. discriminate.
-    + intros t s b H. rewrite lookup_empty in H. discriminate.
-  - split; cbn; try reflexivity.
-    + apply R_init.
-    + intros t b H. apply elem_of_nil in H. destruct H.
-    + intros t b H. apply elem_of_nil in H. destruct H.
-    + intros t. rewrite lookup_empty. split; [intros H; apply elem_of_nil in H; destruct H|].
-      intros (? & ?). discriminate.
-    + intros t (? & H). rewrite lookup_empty in H. discriminate.
-    + intros t s H. rewrite lookup_empty in H. discriminate.
-    + intros t u H. rewrite lookup_empty in H. discriminate.
-    + intros t u H. apply elem_of_nil in H. destruct H.
-    + intros t u H. rewrite lookup_empty in H. discriminate.
-    + intros t u H. rewrite lookup_empty in H. discriminate.
-    + intros t H. unfold is_trusted in H. cbn in H. rewrite lookup_empty in H. discriminate.
-    + intros t H. apply elem_of_nil in H. destruct H.
-    + intros t H. apply elem_of_nil in H. destruct H.
-    + intros t u H. rewrite lookup_empty in H. discriminate.
-    + intros t H. apply elem_of_nil in H. destruct H.
-Qed.
-
-Lemma monitor_silent_from ops' : forall n m i,
-  Inv n m -> (forall o, o ∈ ops' -> o ∈ all) -> monitor_from dl m i ops' (run_from n ops') = None.
-Proof.
-  induction ops' as [|o ops' IH]; intros n m i HI Hsub; [reflexivity|].
-  cbn [run_from monitor_from].
-  destruct (step_sim n m o HI) as (m' & Hm & HI'); [apply Hsub; left|].
-  destruct (step n o) as [n1 ob]. cbn [fst snd] in Hm, HI'. rewrite Hm. cbn [Z.eqb negb].
-  apply IH; [exact HI'|]. intros o' Ho'. apply Hsub. right. exact Ho'.
+    + intros t Hin. destruct (vu_RS _ _ _ HU t Hin) as (s & Hs & Hc).
+      destruct (Hfwd t s Hs) as (s' & Hs' & K1 & K2). exists s'. split; [exact Hs'|].
+      rewrite Hconf'. eapply conf_same_proof; eauto.
+    + rewrite N1. intros t b s Hin Hs Hc. destruct (Hpsame t s Hs) as (so & Hso & Hps & _).
+      eapply (vu_HELD _ _ _ HU t b so Hin Hso). apply Hconf' in Hc. eapply conf_same_proof; [|exact Hc]. congruence.
+    + rewrite N1. intros t b s Hin Hs Hc. apply Hdom. destruct (Hpsame t s Hs) as (so & Hso & Hps & _).
+      eapply (vu_LIMBO _ _ _ HU t b so Hin Hso). intros Hc'. apply Hc, Hconf'. eapply conf_same_proof; eauto.
 Qed.
 
 End Flow.
